@@ -1,4 +1,4 @@
-(* StaticEquiv2 — C01, M1 = S, stages 2 and 3 (named parameters, suffix catch-all, backtracking).
+(* StaticEquiv2 — C01, M1 = S, stages 2-4 (named parameters, suffix and infix catch-all, backtracking).
    M2 = structurally recursive DFS matcher over the tree; M1 = M2 (the explicit
    skipped-node stack is the DFS continuation); M2 = S by induction on the tree.
    Owner: proof agent p-equiv. *)
@@ -123,80 +123,42 @@ Qed.
 (* ------------------------------------------------------------------ *)
 Definition is_slash (x : ascii) : bool := Ascii.eqb x "/".
 
-Inductive kres := KDone (rest : bytes) (vals : list kv) | KCatch (vals : list kv) | KShort | KFail.
-
-(* a catch-all is matched here only when it ends the key (suffix catch-all):
-   it takes the whole non-empty remainder *)
-Fixpoint kmatch (kt : list token) (p : bytes) (vals : list kv) : kres :=
-  match kt with
-  | [] => KDone p vals
-  | t :: kt' =>
-    match p with
-    | [] => KShort
-    | c :: p' =>
-      match t with
-      | TStatic d => if Ascii.eqb d c && sbyte c then kmatch kt' p' vals else KFail
-      | TParam nm =>
-          match seg is_slash p with
-          | [] => KFail
-          | v => kmatch kt' (skipn (List.length v) p) (vals ++ [(nm, v)])
-          end
-      | TCatch nm => match kt' with [] => KCatch (vals ++ [(nm, p)]) | _ => KFail end
-      end
-    end
-  end.
-
-Definition kres_pre (pre : list kv) (r : kres) : kres :=
-  match r with KDone rest vals => KDone rest (pre ++ vals) | KCatch vals => KCatch (pre ++ vals) | x => x end.
-
-Lemma kmatch_acc : forall kt p vals, kmatch kt p vals = kres_pre vals (kmatch kt p []).
-Proof.
-  induction kt as [|t kt IH]; intros p vals.
-  - simpl. rewrite app_nil_r. reflexivity.
-  - destruct p as [|c p']; [reflexivity|]. destruct t as [d|nm|nm]; cbn [kmatch].
-    + destruct (Ascii.eqb d c && sbyte c); [apply IH|reflexivity].
-    + destruct (seg is_slash (c :: p')) as [|v0 v]; [reflexivity|].
-      rewrite IH. rewrite (IH _ ([] ++ _)). destruct (kmatch kt _ []); simpl; auto; rewrite <- app_assoc; reflexivity.
-    + destruct kt; reflexivity.
-Qed.
-
-(* token validity of a key: static bytes and {name}; a catch-all only as the last token, and
-   only when allowed (b: the node is a leaf without children) *)
+(* token validity of a key: static bytes, {name}, *{name}; a catch-all may END the key only
+   when allowed (b: the node is a leaf whose children, if any, are a single "/..." child) *)
 Fixpoint kt_ok (b : bool) (kt : list token) : bool :=
   match kt with
   | [] => true
   | t :: kt' =>
-    match t, kt' with
-    | TCatch nm, [] => name_ok nm && b
-    | _, _ => ptok_ok t && kt_ok b kt'
+    match t with
+    | TCatch nm => name_ok nm && (match kt' with [] => b | _ => true end) && kt_ok b kt'
+    | _ => ptok_ok t && kt_ok b kt'
     end
   end.
 
 Lemma kt_ok_cons b t kt : kt_ok b (t :: kt) = true ->
-  (ptok_ok t = true /\ kt_ok b kt = true) \/ (exists nm, t = TCatch nm /\ kt = [] /\ name_ok nm = true /\ b = true).
+  (ptok_ok t = true /\ kt_ok b kt = true) \/
+  (exists nm, t = TCatch nm /\ name_ok nm = true /\ kt_ok b kt = true /\ (kt = [] -> b = true)).
 Proof.
   cbn [kt_ok]. destruct t as [d|nm|nm].
   - intros H. apply andb_prop in H. left. exact H.
   - intros H. apply andb_prop in H. left. exact H.
-  - destruct kt as [|t' kt'].
-    + intros H. apply andb_prop in H. right. exists nm. tauto.
-    + simpl. discriminate.
+  - intros H. apply andb_prop in H. destruct H as [H H3]. apply andb_prop in H. destruct H as [H1 H2].
+    right. exists nm. repeat split; auto. intros ->. exact H2.
 Qed.
 
 Lemma kt_ok_tok b kt : kt_ok b kt = true -> forallb tok_ok kt = true.
 Proof.
   induction kt as [|t kt IH]; intros H; auto. apply kt_ok_cons in H.
-  destruct H as [[H1 H2]|(nm & -> & -> & H1 & _)].
+  destruct H as [[H1 H2]|(nm & -> & H1 & H2 & _)].
   - simpl. rewrite (ptok_tok _ H1), IH; auto.
-  - simpl. rewrite H1. reflexivity.
+  - simpl. rewrite H1, IH; auto.
 Qed.
 
 Lemma kt_ok_of_ptok b kt : forallb ptok_ok kt = true -> kt_ok b kt = true.
 Proof.
   induction kt as [|t kt IH]; intros H; auto. simpl in H. apply andb_prop in H. destruct H as [H1 H2].
   specialize (IH H2).
-  destruct t as [d|nm|nm]; simpl in H1; try discriminate; destruct kt as [|t' kt']; cbn [kt_ok ptok_ok];
-    rewrite H1; auto.
+  destruct t as [d|nm|nm]; simpl in H1; try discriminate; cbn [kt_ok ptok_ok]; rewrite H1; auto.
 Qed.
 
 Lemma index_byte_seg : forall p,
@@ -240,13 +202,21 @@ Proof. destruct lazy; simpl; auto. rewrite app_assoc. reflexivity. Qed.
 Lemma extends_addp lazy a v l : extends (addp lazy a v) l -> extends a l.
 Proof. destruct lazy; simpl; auto. apply extends_app. Qed.
 
+Lemma extends_addp_self lazy a v : extends a (addp lazy a v).
+Proof.
+  destruct lazy; simpl; [apply extends_refl|].
+  unfold extends. rewrite firstn_app, Nat.sub_diag, firstn_all. simpl. apply app_nil_r.
+Qed.
+
 (* the run reaches Backtrack without having produced a result *)
 Definition backs (path : bytes) (lazy : bool) (fuel : nat) (ph : phase) (s : st) (cost : nat) : Prop :=
   exists fuel' s', lbp fuel path lazy ph s = lbp fuel' path lazy PBack s' /\ fuel <= fuel' + cost /\
                    sks s' = sks s /\ extends (ps s) (ps s') /\ tinv s' /\ pkc s' = 0.
 
+(* a direct hit on a node carrying the same route as l (inside an infix catch-all sub-lookup the
+   matcher returns the truncated copy of the node, "inode", not the tree node itself) *)
 Definition found_as (r : lres) (l : node) (pss : list kv) : Prop :=
-  exists tps', r = Found (Some l) false pss tps'.
+  exists l' tps', r = Found (Some l') false pss tps' /\ nroute l' = nroute l.
 
 Lemma backs_after path lazy fuel s cost :
   is_leaf (cur s) && Nat.eqb (cm s) (List.length path) && Nat.eqb (cmn s) (List.length (nkey (cur s))) = false ->
@@ -352,25 +322,6 @@ Proof.
   exists fuel', s'. repeat split; auto; try congruence; try lia. eapply extends_trans; eauto.
 Qed.
 
-(* the key of the current node has been matched completely *)
-Definition inner_ok (path : bytes) (lazy : bool) (fuel : nat) (s : st) (rest : bytes) (vals : list kv) (cost : nat) : Prop :=
-  exists fuel' s', lbp fuel path lazy (PInner (cmn s)) s = lbp fuel' path lazy PSelect s' /\ fuel <= fuel' + cost /\
-    cur s' = cur s /\ par s' = par s /\ skipn (cm s') path = rest /\ cm s' <= List.length path /\
-    cmn s' = List.length (nkey (cur s)) /\ sks s' = sks s /\ ps s' = addp lazy (ps s) vals /\
-    pcnt s' = List.length (ps s') /\ tinv s'.
-
-Lemma inner_ok_step path lazy fuel s rest v0 vals1 cost fuel1 s1 cost1 k :
-  lbp fuel path lazy (PInner (cmn s)) s = lbp fuel1 path lazy (PInner (cmn s1)) s1 ->
-  inner_ok path lazy fuel1 s1 rest vals1 cost1 ->
-  cur s1 = cur s -> par s1 = par s -> sks s1 = sks s -> ps s1 = addp lazy (ps s) v0 ->
-  fuel <= fuel1 + k -> cost1 + k <= cost ->
-  inner_ok path lazy fuel s rest (v0 ++ vals1) cost.
-Proof.
-  intros He (fuel' & s' & He' & Hf & H1 & H2 & H3 & H4 & H5 & H6 & H7 & H8 & H9) Hc Hp Hs Hps Hf1 Hk.
-  exists fuel', s'. repeat split; auto; try congruence; try lia.
-  rewrite H7, Hps. apply addp_addp.
-Qed.
-
 Lemma forallb_ptok_tok kt : forallb ptok_ok kt = true -> forallb tok_ok kt = true.
 Proof.
   intros H. apply forallb_forall. intros t Ht. apply ptok_tok. rewrite forallb_forall in H. auto.
@@ -410,9 +361,10 @@ Lemma found_step path lazy fuel ph s l v0 vals1 fuel1 ph1 s1 :
   ps s1 = addp lazy (ps s) v0 ->
   found_as (lbp fuel path lazy ph s) l (addp lazy (ps s) (v0 ++ vals1)).
 Proof.
-  intros He [tps' Hf] Hps. exists tps'. rewrite He, Hf, Hps, addp_addp. reflexivity.
+  intros He (l' & tps' & Hf & Hr) Hps. exists l', tps'. rewrite He, Hf, Hps, addp_addp. auto.
 Qed.
 
+(* ---- catch-all steps ---- *)
 Lemma inner_catch_step f path lazy i s c prm :
   nth_error (nkey (cur s)) i = Some "*" -> nth_error path (cm s) = Some c ->
   nth_error (nparams (cur s)) (pkc s) = Some prm -> pend prm = None -> nchildren (cur s) = [] ->
@@ -428,166 +380,149 @@ Proof.
   cbn [Ascii.eqb Bool.eqb andb]. rewrite Hprm, Hpe, Hch. reflexivity.
 Qed.
 
-Lemma catch_info s done nm :
-  nkey (cur s) = render (done ++ [TCatch nm]) -> forallb tok_ok (done ++ [TCatch nm]) = true ->
+Definition cstate (s : st) (d : nat) : st :=
+  {| cur := cur s; par := par s; cm := cm s; cmn := cmn s + d; pcnt := pcnt s; pkc := pkc s;
+     sks := sks s; ps := ps s; tsr := tsr s; tn := tn s; tps := tps s |}.
+
+(* suffix catch-all on a leaf that has children: scan with the first child *)
+Lemma inner_catchc_step f path lazy i s c prm c0 rest :
+  nth_error (nkey (cur s)) i = Some "*" -> nth_error path (cm s) = Some c ->
+  nth_error (nparams (cur s)) (pkc s) = Some prm -> pend prm = None -> nchildren (cur s) = c0 :: rest ->
+  lbp (S f) path lazy (PInner i) s =
+  lbp f path lazy (PCatch c0 (cm s)) (cstate s (List.length (nkey (cur s)) - cmn s)).
+Proof.
+  intros Hk Hp Hprm Hpe Hch. cbn [lbp].
+  assert (i < List.length (nkey (cur s))) as Hi by (apply nth_error_Some; congruence).
+  assert (cm s < List.length path) as Hc by (apply nth_error_Some; congruence).
+  apply Nat.ltb_lt in Hi, Hc. rewrite Hi, Hc. cbn [negb]. rewrite Hk, Hp.
+  assert (negb (Ascii.eqb "*" c) || Ascii.eqb c "{" || Ascii.eqb c "*" = true) as ->.
+  { rewrite (Ascii.eqb_sym "*" c). destruct (Ascii.eqb c "*"); [apply orb_true_r|reflexivity]. }
+  cbn [Ascii.eqb Bool.eqb andb]. rewrite Hprm, Hpe, Hch. reflexivity.
+Qed.
+
+(* infix catch-all: scan with the truncated copy of the node *)
+Lemma inner_infix_step f path lazy i s c prm e ino :
+  nth_error (nkey (cur s)) i = Some "*" -> nth_error path (cm s) = Some c ->
+  nth_error (nparams (cur s)) (pkc s) = Some prm -> pend prm = Some e -> cmn s <= e ->
+  inode (cur s) = Some ino ->
+  lbp (S f) path lazy (PInner i) s = lbp f path lazy (PCatch ino (cm s)) (cstate s (e - cmn s)).
+Proof.
+  intros Hk Hp Hprm Hpe Hle Hino. cbn [lbp].
+  assert (i < List.length (nkey (cur s))) as Hi by (apply nth_error_Some; congruence).
+  assert (cm s < List.length path) as Hc by (apply nth_error_Some; congruence).
+  apply Nat.ltb_lt in Hi, Hc. rewrite Hi, Hc. cbn [negb]. rewrite Hk, Hp.
+  assert (negb (Ascii.eqb "*" c) || Ascii.eqb c "{" || Ascii.eqb c "*" = true) as ->.
+  { rewrite (Ascii.eqb_sym "*" c). destruct (Ascii.eqb c "*"); [apply orb_true_r|reflexivity]. }
+  cbn [Ascii.eqb Bool.eqb andb]. rewrite Hprm, Hpe. apply Nat.leb_le in Hle. rewrite Hle, Hino. reflexivity.
+Qed.
+
+Lemma catch_info s done nm kt' :
+  nkey (cur s) = render (done ++ TCatch nm :: kt') -> forallb tok_ok (done ++ TCatch nm :: kt') = true ->
   pkc s = cnt_wild done ->
-  exists prm, nth_error (nparams (cur s)) (pkc s) = Some prm /\ pkey prm = nm /\ pend prm = None.
+  exists prm, nth_error (nparams (cur s)) (pkc s) = Some prm /\ pkey prm = nm /\
+    pend prm = match kt' with [] => None | _ => Some (List.length (render done) + List.length nm + 3) end.
 Proof.
   intros Hk Hok Hpkc. unfold nparams, parse_wildcard. rewrite Hk, pw_render by exact Hok.
-  rewrite Hpkc. rewrite (pw_spec_nth done (TCatch nm) [] 0 (List.length (render done))) by auto.
+  rewrite Hpkc. rewrite (pw_spec_nth done (TCatch nm) kt' 0 (List.length (render done))) by auto.
   cbn [pw_spec hd_error]. eexists. split; [reflexivity|]. split; reflexivity.
 Qed.
 
-Lemma inner_tok path lazy b : forall kt done s fuel,
-  nkey (cur s) = render (done ++ kt) -> forallb ptok_ok done = true -> kt_ok b kt = true ->
-  (b = true -> nchildren (cur s) = []) ->
-  cmn s = List.length (render done) -> pkc s = cnt_wild done ->
-  pcnt s = List.length (ps s) -> tinv s -> cm s <= List.length path ->
-  List.length (render kt) + 4 <= fuel ->
-  match kmatch kt (skipn (cm s) path) [] with
-  | KDone rest vals => inner_ok path lazy fuel s rest vals (List.length (render kt) + 1)
-  | KCatch vals => found_as (lbp fuel path lazy (PInner (cmn s)) s) (cur s) (addp lazy (ps s) vals)
-  | _ => backs path lazy fuel (PInner (cmn s)) s (List.length (render kt) + 4)
-  end.
+Lemma first_infix_render : forall done nm kt' pos, forallb ptok_ok done = true -> kt' <> [] ->
+  first_infix_catch (pw_spec (done ++ TCatch nm :: kt') pos) = Some (pos + List.length (render done) + List.length nm + 3).
 Proof.
-  induction kt as [|t kt IH]; intros done s fuel Hk Hokd Hokt0 Hb Hcmn Hpkc Hpc Ht Hcm Hf.
-  - (* key exhausted *)
-    cbn [kmatch]. destruct fuel as [|f]; [lia|]. exists f, s.
-    rewrite inner_exit by (right; rewrite Hk, app_nil_r, Hcmn; lia).
-    repeat split; auto; try lia.
-    + rewrite Hk, app_nil_r. exact Hcmn.
-    + rewrite addp_nil. reflexivity.
-  - assert (Hklen : List.length (nkey (cur s)) = List.length (render done) + List.length (render (t :: kt)))
-      by (rewrite Hk, render_app, app_length; reflexivity).
-    pose proof (render_cons_len t kt) as Hrl. pose proof (render_tok_len_pos t) as Htl.
-    destruct (skipn (cm s) path) as [|c p'] eqn:Ep.
-    + (* path exhausted inside the key *)
-      cbn [kmatch]. apply skipn_nil_len in Ep.
-      destruct fuel as [|[|[|f]]]; try lia.
-      eapply backs_step with (k := 3) (cost1 := 1).
-      * rewrite inner_exit by (left; exact Ep). rewrite select_ge by exact Ep. reflexivity.
-      * apply backs_after; auto; try lia. apply cmn_lt_nofound. lia.
-      * reflexivity.
-      * apply extends_refl.
-      * lia.
-      * lia.
-    + pose proof (skipn_cons_nth _ _ _ _ Ep) as (Hpc0 & Hp' & Hlt).
-      assert (Hkey : nth_error (nkey (cur s)) (cmn s) = hd_error (render (t :: kt))).
-      { rewrite Hk, render_app, Hcmn. apply nth_error_app_len. }
-      pose proof (kt_ok_tok _ _ Hokt0) as Htok0.
-      destruct (kt_ok_cons _ _ _ Hokt0) as [[Hokt1 Hokt2]|(cn & -> & -> & Hcn & ->)].
-      2:{ (* suffix catch-all *)
-          simpl in Hkey. cbn [kmatch].
-          destruct (catch_info s done cn Hk) as (prm & Hprm & Hpk & Hpe); auto.
-          { rewrite forallb_app, (forallb_ptok_tok _ Hokd). exact Htok0. }
-          destruct fuel as [|f]; [lia|].
-          rewrite (inner_catch_step f path lazy (cmn s) s c prm Hkey Hpc0 Hprm Hpe (Hb eq_refl)).
-          rewrite Hpk, Ep. exists (tps s). reflexivity. }
-      destruct t as [d|nm|nm]; [| |discriminate].
-      * (* static byte *)
-        simpl in Hkey, Hokt1. cbn [kmatch].
-        destruct fuel as [|f]; [lia|].
-        pose proof (inner_static_step f path lazy (cmn s) s d c Hkey Hpc0 Hokt1) as Hstep.
-        destruct (Ascii.eqb d c && sbyte c) eqn:E.
-        -- assert (Hr1 : List.length (render (done ++ [TStatic d])) = S (List.length (render done)))
-             by (rewrite render_app, app_length; simpl; lia).
-           assert (Hcw : cnt_wild (done ++ [TStatic d]) = cnt_wild done).
-           { unfold cnt_wild. rewrite filter_app, app_length. simpl. lia. }
-           change (List.length (render_tok (TStatic d))) with 1 in Hrl.
-           assert (IH' := IH (done ++ [TStatic d]) (adv s 1) f).
-           rewrite <- app_assoc in IH'. simpl app in IH'.
-           assert (Hd1 : forallb ptok_ok (done ++ [TStatic d]) = true)
-             by (rewrite forallb_app, Hokd; simpl; rewrite Hokt1; reflexivity).
-           specialize (IH' Hk Hd1 Hokt2 Hb).
-           specialize (IH' ltac:(change (cmn (adv s 1)) with (S (cmn s)); rewrite Hr1; lia) ltac:(change (pkc (adv s 1)) with (pkc s); rewrite Hcw; exact Hpkc) Hpc Ht
-                           ltac:(change (cm (adv s 1)) with (S (cm s)); lia) ltac:(lia)).
-           change (cm (adv s 1)) with (S (cm s)) in IH'. rewrite Hp' in IH'.
-           change (cmn (adv s 1)) with (S (cmn s)) in IH'.
-           clear IH. rename IH' into IH.
-           destruct (kmatch kt p' []) as [rest vals|vals| |].
-           ++ replace vals with ([] ++ vals) by reflexivity.
-              eapply (inner_ok_step path lazy (S f) s rest [] vals _ f (adv s 1) _ 1); fin.
-           ++ replace vals with ([] ++ vals) by reflexivity.
-              eapply (found_step path lazy (S f) _ s _ [] vals f _ (adv s 1)); fin.
-           ++ eapply (backs_step path lazy (S f) _ s _ f _ (adv s 1) _ 1); fin.
-           ++ eapply (backs_step path lazy (S f) _ s _ f _ (adv s 1) _ 1); fin.
-        -- eapply (backs_step path lazy (S f) _ s _ f PAfter s 1 1); fin.
-           apply backs_after; auto; try lia. apply cm_lt_nofound. exact Hlt.
-      * (* named parameter *)
-        simpl in Hkey.
-        destruct (param_info s done nm kt Hk) as (prm & Hprm & Hpk & Hadv); auto.
-        { rewrite forallb_app. rewrite (forallb_ptok_tok _ Hokd), Htok0. reflexivity. }
-        destruct fuel as [|f]; [lia|].
-        pose proof (inner_param_step f path lazy (cmn s) s c prm Hkey Hpc0 Hprm) as Hstep.
-        rewrite Hadv, Hpk, Ep in Hstep.
-        pose proof (index_byte_seg (c :: p')) as Hseg.
-        cbn [kmatch].
-        assert (Hgen : forall cm', cm' = cm s + List.length (seg is_slash (c :: p')) ->
-                  seg is_slash (c :: p') <> [] ->
-                  List.length (seg is_slash (c :: p')) <= List.length (c :: p') ->
-                  slice path (cm s) cm' = seg is_slash (c :: p') ->
-                  lbp (S f) path lazy (PInner (cmn s)) s =
-                  lbp f path lazy (PInner (cmn s + (List.length nm + 2)))
-                    (pstate lazy s cm' (List.length nm + 2) nm (slice path (cm s) cm')) ->
-                  match match seg is_slash (c :: p') with
-                        | [] => KFail
-                        | a :: l => kmatch kt (skipn (List.length (a :: l)) (c :: p')) ([] ++ [(nm, a :: l)])
-                        end with
-                  | KDone rest vals => inner_ok path lazy (S f) s rest vals (List.length (render (TParam nm :: kt)) + 1)
-                  | KCatch vals => found_as (lbp (S f) path lazy (PInner (cmn s)) s) (cur s) (addp lazy (ps s) vals)
-                  | _ => backs path lazy (S f) (PInner (cmn s)) s (List.length (render (TParam nm :: kt)) + 4)
-                  end).
-        { intros cm' Hcm' Hvne Hvlen Hslice Hst. clear Hseg.
-          destruct (seg is_slash (c :: p')) as [|v0 vv] eqn:Ev; [congruence|]. set (v := v0 :: vv) in *.
-          rewrite Hslice in Hst. set (s1 := pstate lazy s cm' (List.length nm + 2) nm v) in *.
-          assert (Hr1 : List.length (render (done ++ [TParam nm])) = List.length (render done) + (List.length nm + 2)).
-          { rewrite render_app, app_length. f_equal. change (render [TParam nm]) with (("{" :: nm ++ ["}"]) ++ []).
-            rewrite app_nil_r. cbn [List.length]. rewrite app_length. simpl. lia. }
-          assert (Hcw : cnt_wild (done ++ [TParam nm]) = S (cnt_wild done)).
-          { unfold cnt_wild. rewrite filter_app, app_length. simpl. lia. }
-          assert (Hlenp : List.length (c :: p') = List.length path - cm s) by (rewrite <- Ep; apply skipn_length).
-          assert (IH' := IH (done ++ [TParam nm]) s1 f).
-          rewrite <- app_assoc in IH'. simpl app in IH'.
-          assert (Hd1 : forallb ptok_ok (done ++ [TParam nm]) = true)
-            by (rewrite forallb_app, Hokd; cbn [forallb]; rewrite Hokt1; reflexivity).
-          specialize (IH' Hk Hd1 Hokt2 Hb).
-          assert (Hrl' : List.length (render (TParam nm :: kt)) = List.length nm + 2 + List.length (render kt)).
-          { rewrite Hrl. f_equal. simpl. rewrite app_length. simpl. lia. }
-          specialize (IH' ltac:(change (cmn s1) with (cmn s + (List.length nm + 2)); rewrite Hr1; lia)
-                          ltac:(change (pkc s1) with (S (pkc s)); rewrite Hcw, Hpkc; reflexivity)).
-          assert (Hpc1 : pcnt s1 = List.length (ps s1)).
-          { unfold s1, pstate; cbn [pcnt ps]. destruct lazy; auto. rewrite app_length. simpl. lia. }
-          specialize (IH' Hpc1 Ht ltac:(change (cm s1) with cm'; lia) ltac:(lia)).
-          change (cm s1) with cm' in IH'.
-          assert (Hsk : skipn cm' path = skipn (List.length v) (c :: p')).
-          { rewrite <- Ep, skipn_skipn'. f_equal. lia. }
-          rewrite Hsk in IH'.
-          rewrite kmatch_acc. simpl app.
-          assert (Hx : extends (ps s) (ps s1)).
-          { unfold s1, pstate; cbn [ps]. destruct lazy; [apply extends_refl|].
-            unfold extends. rewrite firstn_app, Nat.sub_diag, firstn_all. simpl. apply app_nil_r. }
-          destruct (kmatch kt (skipn (List.length v) (c :: p')) []) as [rest vals|vals| |]; cbn [kres_pre].
-          - eapply (inner_ok_step path lazy (S f) s rest [(nm, v)] vals _ f s1 _ 1); fin.
-          - eapply (found_step path lazy (S f) _ s _ [(nm, v)] vals f _ s1); fin.
-          - eapply (backs_step path lazy (S f) _ s _ f _ s1 _ 1); fin.
-          - eapply (backs_step path lazy (S f) _ s _ f _ s1 _ 1); fin. }
-        destruct (index_byte (c :: p') "/") as [[|dd]|] eqn:Eidx.
-        -- (* empty segment *)
-           destruct Hseg as (Hs1 & _ & _). rewrite Hs1. cbn [firstn].
-           eapply (backs_step path lazy (S f) _ s _ f PAfter s 1 1); fin.
-           apply backs_after; auto; try lia. apply cm_lt_nofound. exact Hlt.
-        -- destruct Hseg as (Hs1 & Hs2 & Hs3). cbv zeta in Hstep.
-           apply (Hgen (cm s + S dd)); auto.
-           ++ rewrite Hs1. simpl. discriminate.
-           ++ lia.
-           ++ unfold slice. rewrite Ep, Hs1. f_equal. lia.
-        -- cbv zeta in Hstep.
-           assert (Hlenp : List.length (c :: p') = List.length path - cm s) by (rewrite <- Ep; apply skipn_length).
-           apply (Hgen (List.length path)); auto.
-           ++ rewrite Hseg, Hlenp. lia.
-           ++ rewrite Hseg. discriminate.
-           ++ rewrite Hseg. lia.
-           ++ unfold slice. rewrite Ep, Hseg, <- Hlenp. apply firstn_all.
+  induction done as [|d done IH]; intros nm kt' pos Hok Hne.
+  - simpl. destruct kt'; [congruence|]. simpl. f_equal. lia.
+  - simpl in Hok. apply andb_prop in Hok. destruct Hok as [Hd Hok].
+    destruct d as [c|pn|pn]; simpl in Hd; try discriminate.
+    + simpl app. cbn [pw_spec]. rewrite IH by auto. f_equal. simpl. lia.
+    + simpl app. cbn [pw_spec first_infix_catch pcatch]. rewrite IH by auto. f_equal.
+      simpl. rewrite !app_length. simpl. lia.
+Qed.
+
+Lemma skipn_render_catch done nm kt' :
+  skipn (List.length (render done) + List.length nm + 3) (render (done ++ TCatch nm :: kt')) = render kt'.
+Proof.
+  rewrite render_app. change (render (TCatch nm :: kt')) with (("*" :: "{" :: nm ++ ["}"]) ++ render kt').
+  rewrite app_assoc.
+  replace (List.length (render done) + List.length nm + 3) with (List.length (render done ++ "*" :: "{" :: nm ++ ["}"]))
+    by (rewrite app_length; simpl; rewrite app_length; simpl; lia).
+  rewrite skipn_app, skipn_all, Nat.sub_diag. reflexivity.
+Qed.
+
+Lemma inode_render n done nm kt' :
+  nkey n = render (done ++ TCatch nm :: kt') -> forallb ptok_ok done = true ->
+  forallb tok_ok (done ++ TCatch nm :: kt') = true -> kt' <> [] ->
+  inode n = Some (Node (render kt') (nroute n) (nchildren n)).
+Proof.
+  intros Hk Hd Hok Hne. unfold inode, nparams, parse_wildcard. rewrite Hk, pw_render by exact Hok.
+  rewrite first_infix_render by auto. simpl. rewrite skipn_render_catch. reflexivity.
+Qed.
+
+(* ---- the catch-all loop ---- *)
+Definition with_cm (s : st) (c : nat) : st :=
+  {| cur := cur s; par := par s; cm := c; cmn := cmn s; pcnt := pcnt s; pkc := pkc s;
+     sks := sks s; ps := ps s; tsr := tsr s; tn := tn s; tps := tps s |}.
+
+Lemma pcatch_found f path lazy ino start s prm d sn sps stps :
+  nth_error (nparams (cur s)) (pkc s) = Some prm ->
+  index_byte (skipn (cm s) path) "/" = Some (S d) ->
+  lbp f (skipn (cm s + S d) path) false PWalk (init_st ino [] []) = Found (Some sn) false sps stps ->
+  lbp (S f) path lazy (PCatch ino start) s =
+  Found (Some sn) false (addp lazy (ps s) ((pkey prm, slice path start (cm s + S d)) :: sps)) (tps s).
+Proof. intros Hprm Hidx Hsub. cbn [lbp]. rewrite Hprm, Hidx, Hsub. reflexivity. Qed.
+
+Lemma pcatch_next f path lazy ino start s prm d tn' tsr' sps stps :
+  nth_error (nparams (cur s)) (pkc s) = Some prm ->
+  index_byte (skipn (cm s) path) "/" = Some (S d) ->
+  lbp f (skipn (cm s + S d) path) false PWalk (init_st ino [] []) = Found tn' tsr' sps stps ->
+  (tsr' = false -> tn' = None) -> tinv s ->
+  exists s1, lbp (S f) path lazy (PCatch ino start) s = lbp f path lazy (PCatch ino start) (with_cm s1 (S (cm s + S d)))
+             /\ same_core s s1 /\ tinv s1 /\ pcnt s1 = pcnt s /\ pkc s1 = pkc s.
+Proof.
+  intros Hprm Hidx Hsub Hnd Ht. cbn [lbp]. rewrite Hprm, Hidx, Hsub.
+  destruct tn' as [sn|].
+  - destruct tsr'; [|specialize (Hnd eq_refl); discriminate].
+    destruct (tsr s) eqn:Ets.
+    + exists s. split; [destruct s; reflexivity|]. repeat split; auto.
+    + eexists. split; [reflexivity|]. repeat split. apply set_tsr_tinv.
+  - exists s. split; [destruct s; reflexivity|]. repeat split; auto.
+Qed.
+
+Lemma pcatch_final_suffix f path lazy ino start s prm :
+  nth_error (nparams (cur s)) (pkc s) = Some prm -> pend prm = None ->
+  (index_byte (skipn (cm s) path) "/" = Some 0 \/ index_byte (skipn (cm s) path) "/" = None) ->
+  lbp (S f) path lazy (PCatch ino start) s =
+  Found (Some (cur s)) false (addp lazy (ps s) [(pkey prm, skipn start path)]) (tps s).
+Proof.
+  intros Hprm Hpe Hidx. cbn [lbp]. rewrite Hprm, Hpe. destruct Hidx as [-> | ->]; reflexivity.
+Qed.
+
+Lemma pcatch_final_infix f path lazy ino start s prm e :
+  nth_error (nparams (cur s)) (pkc s) = Some prm -> pend prm = Some e -> start < List.length path ->
+  (index_byte (skipn (cm s) path) "/" = Some 0 \/ index_byte (skipn (cm s) path) "/" = None) ->
+  exists s1, lbp (S f) path lazy (PCatch ino start) s = lbp f path lazy PAfter s1 /\
+    cur s1 = cur s /\ cmn s1 = cmn s /\ sks s1 = sks s /\ extends (ps s) (ps s1) /\
+    tsr s1 = tsr s /\ tn s1 = tn s.
+Proof.
+  intros Hprm Hpe Hst Hidx. cbn [lbp]. rewrite Hprm, Hpe.
+  destruct (nth_error path start) as [c0|] eqn:Ec; [|apply nth_error_None in Ec; lia].
+  assert (forall (X : lres), match index_byte (skipn (cm s) path) "/" with Some (S d) => X | _ =>
+            if Ascii.eqb c0 "/" then lbp f path lazy PAfter s
+            else lbp f path lazy PAfter
+                   {| cur := cur s; par := par s; cm := List.length path; cmn := cmn s; pcnt := pcnt s; pkc := pkc s;
+                      sks := sks s; ps := if lazy then ps s else ps s ++ [(pkey prm, skipn start path)];
+                      tsr := tsr s; tn := tn s; tps := tps s |} end =
+          if Ascii.eqb c0 "/" then lbp f path lazy PAfter s
+            else lbp f path lazy PAfter
+                   {| cur := cur s; par := par s; cm := List.length path; cmn := cmn s; pcnt := pcnt s; pkc := pkc s;
+                      sks := sks s; ps := if lazy then ps s else ps s ++ [(pkey prm, skipn start path)];
+                      tsr := tsr s; tn := tn s; tps := tps s |}) as HX
+    by (intros X; destruct Hidx as [-> | ->]; reflexivity).
+  destruct Hidx as [Hi|Hi]; rewrite Hi; destruct (Ascii.eqb c0 "/").
+  - exists s. repeat split; auto. apply extends_refl.
+  - eexists. split; [reflexivity|]. cbn. repeat split; auto. apply (extends_addp_self lazy (ps s) [(pkey prm, skipn start path)]).
+  - exists s. repeat split; auto. apply extends_refl.
+  - eexists. split; [reflexivity|]. cbn. repeat split; auto. apply (extends_addp_self lazy (ps s) [(pkey prm, skipn start path)]).
 Qed.
 
 (* ------------------------------------------------------------------ *)
@@ -709,85 +644,169 @@ Definition with_vals (vals : list kv) (r : mres) : mres :=
   match r with Some (l, v2) => Some (l, vals ++ v2) | None => None end.
 Definition alt (a b : mres) : mres := match a with Some _ => a | None => b end.
 
+(* the catch-all loop: q = rest of the path from the current segment start, v = value so far.
+   At each '/' that ends a non-empty segment try [sub] on the rest (which starts with that '/');
+   stop at an empty segment or at the end of the path. *)
+Fixpoint scan (fuel : nat) (sub fin : bytes -> mres) (nm : bytes) (v q : bytes) : mres :=
+  match fuel with
+  | O => None
+  | S f =>
+    match index_byte q "/" with
+    | Some (S d) =>
+        let sg := firstn (S d) q in
+        let q' := skipn (S d) q in
+        match sub q' with
+        | Some (l, kvs) => Some (l, (nm, v ++ sg) :: kvs)
+        | None => scan f sub fin nm (v ++ sg ++ ["/"]) (skipn 1 q')
+        end
+    | _ => fin (v ++ q)
+    end
+  end.
+
+(* matching the tokens of one key; K = what happens once the key is consumed; sub0 = matcher of
+   the first child (used when the key ends with a catch-all and the node has children) *)
+Section KM.
+  Variable self : node.
+  Variable K : bytes -> mres.
+  Variable sub0 : option (bytes -> mres).
+  Fixpoint km (kt : list token) (p : bytes) : mres :=
+    match kt with
+    | [] => K p
+    | t :: kt' =>
+      match p with
+      | [] => None
+      | c :: p' =>
+        match t with
+        | TStatic d => if Ascii.eqb d c && sbyte c then km kt' p' else None
+        | TParam nm =>
+            match seg is_slash p with
+            | [] => None
+            | v => with_vals [(nm, v)] (km kt' (skipn (List.length v) p))
+            end
+        | TCatch nm =>
+            match kt' with
+            | [] => match sub0 with
+                    | None => Some (self, [(nm, p)])
+                    | Some sb => scan (S (List.length p)) sb (fun v => Some (self, [(nm, v)])) nm [] p
+                    end
+            | _ => scan (S (List.length p)) (fun q => km kt' q) (fun _ => None) nm [] p
+            end
+        end
+      end
+    end.
+End KM.
+
 Fixpoint m2 (n : node) (p : bytes) : mres :=
   match n with
   | Node k r ch =>
-    match kmatch (tokenize k) p [] with
-    | KDone [] vals => match r with Some _ => Some (n, vals) | None => None end
-    | KDone (c :: rest) vals =>
-        let try := fix go (cc : ascii) (l : list node) {struct l} : mres :=
-                     match l with
-                     | [] => None
-                     | x :: l' => if starts_with cc (nkey x) then m2 x (c :: rest) else go cc l'
-                     end in
-        with_vals vals (alt (try c ch) (alt (try "{" ch) (try "*" ch)))
-    | KCatch vals => Some (n, vals)
-    | _ => None
-    end
+    let try := fix go (cc : ascii) (l : list node) (q : bytes) {struct l} : mres :=
+                 match l with
+                 | [] => None
+                 | x :: l' => if starts_with cc (nkey x) then m2 x q else go cc l' q
+                 end in
+    let K := fun rest =>
+               match rest with
+               | [] => match r with Some _ => Some (n, []) | None => None end
+               | c :: _ => alt (try c ch rest) (alt (try "{" ch rest) (try "*" ch rest))
+               end in
+    let sub0 := match ch with c0 :: _ => Some (m2 c0) | [] => None end in
+    km n K sub0 (tokenize k) p
   end.
 
 Definition m2_child (cc : ascii) (ch : list node) (p : bytes) : mres :=
   match first_child cc ch with Some x => m2 x p | None => None end.
 
-Lemma m2_eq k r ch p :
-  m2 (Node k r ch) p =
-  match kmatch (tokenize k) p [] with
-  | KDone [] vals => match r with Some _ => Some (Node k r ch, vals) | None => None end
-  | KDone (c :: rest) vals =>
-      with_vals vals (alt (m2_child c ch (c :: rest)) (alt (m2_child "{" ch (c :: rest)) (m2_child "*" ch (c :: rest))))
-  | KCatch vals => Some (Node k r ch, vals)
-  | _ => None
+(* the continuation at the end of a key: leaf test, or the children in DFS order *)
+Definition Kof (n : node) (rest : bytes) : mres :=
+  match rest with
+  | [] => match nroute n with Some _ => Some (n, []) | None => None end
+  | c :: _ => alt (m2_child c (nchildren n) rest) (alt (m2_child "{" (nchildren n) rest) (m2_child "*" (nchildren n) rest))
   end.
+Definition sub0of (ch : list node) : option (bytes -> mres) :=
+  match ch with c0 :: _ => Some (m2 c0) | [] => None end.
+
+Lemma km_ext self K K' sub0 : (forall q, K q = K' q) -> forall kt p, km self K sub0 kt p = km self K' sub0 kt p.
 Proof.
-  cbn [m2]. destruct (kmatch (tokenize k) p []) as [[|c rest] vals|vals| |]; auto.
-  assert (forall cc, (fix go (cc : ascii) (l : list node) {struct l} : mres :=
+  intros HK. induction kt as [|t kt IH]; intros p; cbn [km]; auto.
+  destruct p as [|c p']; auto. destruct t as [d|nm|nm].
+  - destruct (Ascii.eqb d c && sbyte c); auto.
+  - destruct (seg is_slash (c :: p')); auto. rewrite IH. reflexivity.
+  - destruct kt as [|t' kt']; auto.
+    assert (forall fuel v q, scan fuel (fun q0 => km self K sub0 (t' :: kt') q0) (fun _ => None) nm v q =
+                             scan fuel (fun q0 => km self K' sub0 (t' :: kt') q0) (fun _ => None) nm v q) as Hs.
+    { induction fuel as [|f IHf]; intros v q; [reflexivity|]. cbn [scan].
+      destruct (index_byte q "/") as [[|d]|]; auto. rewrite IH.
+      destruct (km self K' sub0 (t' :: kt') (skipn (S d) q)) as [[l kvs]|]; auto. }
+    apply Hs.
+Qed.
+
+Lemma m2_eq k r ch p :
+  m2 (Node k r ch) p = km (Node k r ch) (Kof (Node k r ch)) (sub0of ch) (tokenize k) p.
+Proof.
+  cbn [m2]. apply km_ext. intros q. unfold Kof. cbn [nroute nchildren]. destruct q as [|c q']; auto.
+  assert (forall cc, (fix go (cc : ascii) (l : list node) (q : bytes) {struct l} : mres :=
                         match l with
                         | [] => None
-                        | x :: l' => if starts_with cc (nkey x) then m2 x (c :: rest) else go cc l'
-                        end) cc ch = m2_child cc ch (c :: rest)) as H.
+                        | x :: l' => if starts_with cc (nkey x) then m2 x q else go cc l' q
+                        end) cc ch (c :: q') = m2_child cc ch (c :: q')) as H.
   { intros cc. unfold m2_child. induction ch as [|x ch IH]; simpl; auto. destruct (starts_with cc (nkey x)); auto. }
   rewrite !H. reflexivity.
 Qed.
 
-(* leaf without children: the only place where a key may end with a catch-all (stage 3) *)
-Definition lnc (r : option route) (ch : list node) : bool :=
-  match r, ch with Some _, [] => true | _, _ => false end.
+(* a key may end with a catch-all only on a leaf whose children, if any, are one "/..." child *)
+Definition cend (r : option route) (ch : list node) : bool :=
+  match r with
+  | Some _ => match ch with [] => true | [c0] => starts_with "/" (nkey c0) | _ => false end
+  | None => false
+  end.
 
-(* invariant: keys are whole tokens (static bytes, {name}, and a final *{name} on a childless
-   leaf); sibling keys start with pairwise distinct bytes (hence at most one parameter child and
-   one catch-all child); a leaf's pattern is the concatenation of the keys on its branch *)
+(* invariant: keys are whole tokens (static bytes, {name}, *{name}); sibling keys start with
+   pairwise distinct bytes (hence at most one parameter child and one catch-all child); a leaf's
+   pattern is the concatenation of the keys on its branch *)
 Inductive pwf : bytes -> node -> Prop :=
 | PWF pre k r ch kt :
-    kt <> [] -> k = render kt -> kt_ok (lnc r ch) kt = true ->
+    kt <> [] -> k = render kt -> kt_ok (cend r ch) kt = true ->
     (forall rt, r = Some rt -> rpat rt = pre ++ k) ->
     NoDup (heads ch) ->
     Forall (pwf (pre ++ k)) ch ->
     pwf pre (Node k r ch).
 
 Lemma pwf_inv pre k r ch : pwf pre (Node k r ch) ->
-  exists kt, kt <> [] /\ k = render kt /\ kt_ok (lnc r ch) kt = true /\
+  exists kt, kt <> [] /\ k = render kt /\ kt_ok (cend r ch) kt = true /\
              (forall rt, r = Some rt -> rpat rt = pre ++ k) /\ NoDup (heads ch) /\ Forall (pwf (pre ++ k)) ch.
 Proof. inversion 1; subst. exists kt. auto 7. Qed.
 
-Lemma lnc_nochild r ch : lnc r ch = true -> ch = [].
-Proof. destruct r, ch; simpl; auto; discriminate. Qed.
-Lemma lnc_leaf r ch : lnc r ch = true -> r <> None.
-Proof. destruct r, ch; simpl; try discriminate. Qed.
+Lemma cend_leaf r ch : cend r ch = true -> r <> None.
+Proof. destruct r; simpl; try discriminate. Qed.
+Lemma cend_children r ch : cend r ch = true -> ch = [] \/ exists c0, ch = [c0] /\ starts_with "/" (nkey c0) = true.
+Proof. destruct r; simpl; [|discriminate]. destruct ch as [|c0 [|c1 ch]]; auto; [|discriminate]. intros H. right. exists c0. auto. Qed.
 
-Fixpoint ncost (n : node) : nat :=
-  match n with
-  | Node k r ch => List.length k + 12 + 3 * (fix sum (l : list node) : nat :=
-                                                match l with [] => 0 | x :: l' => S (ncost x) + sum l' end) ch
+(* fuel: L bounds the length of the request path *)
+Fixpoint kcost (L Csel C0 : nat) (kt : list token) : nat :=
+  match kt with
+  | [] => Csel + 4
+  | TCatch _ :: kt' => 8 + (L + 2) * (8 + match kt' with [] => C0 | _ => kcost L Csel C0 kt' end)
+  | _ :: kt' => 6 + kcost L Csel C0 kt'
   end.
-Fixpoint ncost_sum (l : list node) : nat := match l with [] => 0 | x :: l' => S (ncost x) + ncost_sum l' end.
-Lemma ncost_eq k r ch : ncost (Node k r ch) = List.length k + 12 + 3 * ncost_sum ch.
+
+Fixpoint ncost (L : nat) (n : node) : nat :=
+  match n with
+  | Node k r ch =>
+      6 + kcost L (3 * (fix sum (l : list node) : nat :=
+                          match l with [] => 0 | x :: l' => S (ncost L x) + sum l' end) ch + 14)
+                  (match ch with c0 :: _ => ncost L c0 + 8 | [] => 0 end) (tokenize k)
+  end.
+Fixpoint ncost_sum (L : nat) (l : list node) : nat :=
+  match l with [] => 0 | x :: l' => S (ncost L x) + ncost_sum L l' end.
+Definition c0cost (L : nat) (ch : list node) : nat := match ch with c0 :: _ => ncost L c0 + 8 | [] => 0 end.
+Lemma ncost_eq L k r ch : ncost L (Node k r ch) = 6 + kcost L (3 * ncost_sum L ch + 14) (c0cost L ch) (tokenize k).
 Proof.
   cbn [ncost].
-  assert ((fix sum (l : list node) : nat := match l with [] => 0 | x :: l' => S (ncost x) + sum l' end) ch = ncost_sum ch) as ->.
+  assert ((fix sum (l : list node) : nat := match l with [] => 0 | x :: l' => S (ncost L x) + sum l' end) ch = ncost_sum L ch) as ->.
   { induction ch as [|x ch IH]; simpl; auto. }
   reflexivity.
 Qed.
-Lemma ncost_in x ch : In x ch -> S (ncost x) <= ncost_sum ch.
+Lemma ncost_in L x ch : In x ch -> S (ncost L x) <= ncost_sum L ch.
 Proof. induction ch as [|y ch IH]; simpl; [tauto|]. intros [->|H]; [lia|]. apply IH in H. lia. Qed.
 
 (* ------------------------------------------------------------------ *)
@@ -801,11 +820,6 @@ Lemma walk_lt' f path lazy s : cm s < List.length path ->
   lbp (S f) path lazy PWalk s = lbp f path lazy (PInner 0) (reset_cmn s).
 Proof. exact (walk_lt f path lazy s). Qed.
 
-Lemma extends_addp_self lazy a v : extends a (addp lazy a v).
-Proof.
-  destruct lazy; simpl; [apply extends_refl|].
-  unfold extends. rewrite firstn_app, Nat.sub_diag, firstn_all. simpl. apply app_nil_r.
-Qed.
 Definition optl {A} (o : option A) : list A := match o with Some x => [x] | None => [] end.
 
 Fixpoint push_all (s : st) (idxs : list nat) : st :=
@@ -895,17 +909,31 @@ Proof.
     + rewrite Hpc, Hwc. exists s1, []. simpl. repeat split; auto. intros e [].
 Qed.
 
-Definition walk_ok (path : bytes) (lazy : bool) (y : node) : Prop :=
-  forall fuel s, cur s = y -> cm s < List.length path -> pkc s = 0 -> pcnt s = List.length (ps s) -> tinv s ->
-  ncost y <= fuel ->
+(* L bounds the length of every path looked up (sub-lookups of a catch-all see suffixes) *)
+Definition walk_ok (L : nat) (y : node) : Prop :=
+  forall lazy path fuel s, List.length path <= L ->
+  cur s = y -> cm s < List.length path -> pkc s = 0 -> pcnt s = List.length (ps s) -> tinv s ->
+  ncost L y <= fuel ->
   match m2 y (skipn (cm s) path) with
   | Some (l, vals) => found_as (lbp fuel path lazy PWalk s) l (addp lazy (ps s) vals)
-  | None => backs path lazy fuel PWalk s (ncost y)
+  | None => backs path lazy fuel PWalk s (ncost L y)
+  end.
+
+(* a result that is not a direct hit *)
+Definition nodirect2 (r : lres) : Prop :=
+  exists tn' tsr' ps' tps', r = Found tn' tsr' ps' tps' /\ (tsr' = false -> tn' = None).
+
+(* a complete lookup from a fresh state (what the catch-all loop runs on the rest of the path) *)
+Definition fresh_ok (L : nat) (ino : node) (sub : bytes -> mres) (C : nat) : Prop :=
+  forall q fuel, List.length q <= L -> C <= fuel ->
+  match sub q with
+  | Some (l, v) => found_as (lbp fuel q false PWalk (init_st ino [] [])) l v
+  | None => nodirect2 (lbp fuel q false PWalk (init_st ino [] []))
   end.
 
 Fixpoint first_some (l : list mres) : mres := match l with [] => None | a :: r => alt a (first_some r) end.
-Fixpoint es_cost (es : list (nat * node)) : nat :=
-  match es with [] => 0 | e :: r => S (ncost (snd e)) + es_cost r end.
+Fixpoint es_cost (L : nat) (es : list (nat * node)) : nat :=
+  match es with [] => 0 | e :: r => S (ncost L (snd e)) + es_cost L r end.
 
 Lemma alt_none_r a : alt a None = a.
 Proof. destruct a; reflexivity. Qed.
@@ -919,17 +947,17 @@ Proof.
 Qed.
 
 (* Backtrack through the remaining alternatives of one node *)
-Lemma pop_alts path lazy parent cmv ps0 sks0 : forall es fuel s2,
+Lemma pop_alts L path lazy parent cmv ps0 sks0 : List.length path <= L -> forall es fuel s2,
   sks s2 = map (fun e => {| sk_n := parent; sk_path := cmv; sk_pcnt := List.length ps0; sk_child := fst e |}) es ++ sks0 ->
-  (forall e, In e es -> nth_error (nchildren parent) (fst e) = Some (snd e) /\ walk_ok path lazy (snd e)) ->
-  extends ps0 (ps s2) -> tinv s2 -> pkc s2 = 0 -> cmv < List.length path -> es_cost es <= fuel ->
+  (forall e, In e es -> nth_error (nchildren parent) (fst e) = Some (snd e) /\ walk_ok L (snd e)) ->
+  extends ps0 (ps s2) -> tinv s2 -> pkc s2 = 0 -> cmv < List.length path -> es_cost L es <= fuel ->
   match first_some (map (fun e => m2 (snd e) (skipn cmv path)) es) with
   | Some (l, v2) => found_as (lbp fuel path lazy PBack s2) l (addp lazy ps0 v2)
   | None => exists fuel' s3, lbp fuel path lazy PBack s2 = lbp fuel' path lazy PBack s3 /\
-              fuel <= fuel' + es_cost es /\ sks s3 = sks0 /\ extends ps0 (ps s3) /\ tinv s3 /\ pkc s3 = 0
+              fuel <= fuel' + es_cost L es /\ sks s3 = sks0 /\ extends ps0 (ps s3) /\ tinv s3 /\ pkc s3 = 0
   end.
 Proof.
-  induction es as [|e es IH]; intros fuel s2 Hsk Hes Hx Ht Hk Hcm Hf.
+  intros HL. induction es as [|e es IH]; intros fuel s2 Hsk Hes Hx Ht Hk Hcm Hf.
   - simpl. exists fuel, s2. simpl in Hsk. repeat split; auto. simpl; lia.
   - cbn [map first_some es_cost] in *.
     destruct (Hes e (or_introl eq_refl)) as [Hnth Hwalk].
@@ -940,24 +968,24 @@ Proof.
     { apply back_pop; auto. simpl. apply extends_len. exact Hx. }
     set (s3 := popped s2 sk rest (snd e)) in *.
     assert (Hps3 : ps s3 = ps0) by exact Hx.
-    pose proof (Hwalk f s3 eq_refl Hcm Hk) as Hw. rewrite Hps3 in Hw.
+    pose proof (Hwalk lazy path f s3 HL eq_refl Hcm Hk) as Hw. rewrite Hps3 in Hw.
     specialize (Hw eq_refl Ht ltac:(lia)). change (cm s3) with cmv in Hw.
     destruct (m2 (snd e) (skipn cmv path)) as [[l v2]|].
-    + cbn [alt]. destruct Hw as [tps' E]. exists tps'. rewrite Hpop, E. reflexivity.
+    + cbn [alt]. destruct Hw as (l' & tps' & E & Er). exists l', tps'. rewrite Hpop, E. auto.
     + cbn [alt]. destruct Hw as (f4 & s4 & He4 & Hf4 & Hsk4 & Hx4 & Ht4 & Hk4).
       change (sks s3) with rest in Hsk4. rewrite Hps3 in Hx4.
       specialize (IH f4 s4 Hsk4 (fun e0 H0 => Hes e0 (or_intror H0)) Hx4 Ht4 Hk4 Hcm ltac:(lia)).
       destruct (first_some (map (fun e0 => m2 (snd e0) (skipn cmv path)) es)) as [[l v2]|].
-      * destruct IH as [tps' E]. exists tps'. rewrite Hpop, He4, E. reflexivity.
+      * destruct IH as (l' & tps' & E & Er). exists l', tps'. rewrite Hpop, He4, E. auto.
       * destruct IH as (f5 & s5 & He5 & Hf5 & Hsk5 & Hx5 & Ht5 & Hk5).
         exists f5, s5. split; [rewrite Hpop, He4; exact He5|]. repeat split; auto. lia.
 Qed.
 
-Lemma es_cost_le ch : forall es, (forall e, In e es -> In (snd e) ch) ->
-  List.length es <= 3 -> es_cost es <= 3 * ncost_sum ch.
+Lemma es_cost_le L ch : forall es, (forall e, In e es -> In (snd e) ch) ->
+  List.length es <= 3 -> es_cost L es <= 3 * ncost_sum L ch.
 Proof.
   intros es Hin Hlen.
-  assert (forall e, In e es -> S (ncost (snd e)) <= ncost_sum ch) as H by (intros e He; apply ncost_in; auto).
+  assert (forall e, In e es -> S (ncost L (snd e)) <= ncost_sum L ch) as H by (intros e He; apply ncost_in; auto).
   destruct es as [|e1 [|e2 [|e3 [|e4 es]]]]; simpl in *; try lia.
   - pose proof (H e1 (or_introl eq_refl)). lia.
   - pose proof (H e1 (or_introl eq_refl)). pose proof (H e2 (or_intror (or_introl eq_refl))). lia.
@@ -968,118 +996,565 @@ Qed.
 Lemma alts_nodes_len c ch : List.length (alts_nodes c ch) <= 3.
 Proof. unfold alts_nodes. destruct (first_child c ch), (first_child "{" ch), (first_child "*" ch); simpl; lia. Qed.
 
-Lemma walk_m2 path lazy : forall n pre, pwf pre n -> walk_ok path lazy n.
+(* what happens at PSelect once the key of the current node (a tree node or its truncated copy) has
+   been consumed *)
+Definition sel_ok (L : nat) (n : node) (Csel : nat) : Prop :=
+  forall lazy path fuel s', List.length path <= L ->
+  nroute (cur s') = nroute n -> nchildren (cur s') = nchildren n ->
+  cmn s' = List.length (nkey (cur s')) -> cm s' <= List.length path ->
+  pcnt s' = List.length (ps s') -> tinv s' -> Csel <= fuel ->
+  match Kof n (skipn (cm s') path) with
+  | Some (l, v2) => found_as (lbp fuel path lazy PSelect s') l (addp lazy (ps s') v2)
+  | None => backs path lazy fuel PSelect s' Csel
+  end.
+
+Lemma sel_ok_node L n : NoDup (heads (nchildren n)) -> (forall x, In x (nchildren n) -> walk_ok L x) ->
+  sel_ok L n (3 * ncost_sum L (nchildren n) + 14).
 Proof.
-  induction n as [k r ch IH] using node_ind'. intros pre Hwf fuel s Hcur Hlt Hpkc Hpc Ht Hfuel.
-  apply pwf_inv in Hwf. destruct Hwf as (kt & Hne & Hk & Hok & Hr & Hnd & Hch).
+  intros Hnd Hwalk lazy path f2 s' HL Hrt Hch' Hcmn' Hcm' Hpc' Ht' Hf2.
+  set (ch := nchildren n) in *.
+  destruct (skipn (cm s') path) as [|c rest'] eqn:Hrest.
+  - (* the path ends with this key *)
+    apply skipn_nil_len in Hrest. cbn [Kof].
+    destruct f2 as [|[|f3]]; try lia.
+    pose proof (select_ge f3 path lazy s' Hrest) as Hsel.
+    destruct (nroute n) as [rt|] eqn:Er.
+    + destruct f3 as [|f4]; [lia|].
+      exists (cur s'), (tps s'). rewrite Hsel.
+      rewrite after_found; [| unfold is_leaf; rewrite Hrt; reflexivity | lia | exact Hcmn'].
+      rewrite addp_nil. split; [reflexivity|]. congruence.
+    + eapply (backs_step path lazy (S (S f3)) PSelect s' _ f3 PAfter s' 1 2).
+      * exact Hsel.
+      * apply backs_after; auto; try lia. unfold is_leaf. rewrite Hrt. reflexivity.
+      * reflexivity.
+      * apply extends_refl.
+      * lia.
+      * lia.
+  - (* the path continues: children, in the order static, parameter, catch-all *)
+    pose proof (skipn_cons_nth _ _ _ _ Hrest) as (Hnc & _ & Hlt').
+    cbn [Kof]. fold ch.
+    destruct f2 as [|f3]; [lia|].
+    destruct (select_alts f3 path lazy s' c Hlt' Hnc) as (s1 & es & Hmap & Hnth & Hcore & Ht1 & Hpc1 & Hsel); auto.
+    { rewrite Hch'. exact Hnd. }
+    rewrite Hch' in Hmap, Hnth.
+    destruct Hcore as (Hc1 & _ & Hcm1 & _ & Hsk1 & Hps1).
+    rewrite alts_first_some, <- Hmap, map_map.
+    assert (Hes : forall e, In e es -> nth_error (nchildren (cur s1)) (fst e) = Some (snd e) /\ walk_ok L (snd e)).
+    { intros e He0. pose proof (Hnth e He0) as Hn. split; [rewrite Hc1, Hch'; exact Hn|].
+      apply nth_error_In in Hn. apply Hwalk. exact Hn. }
+    assert (Hescost : es_cost L es <= 3 * ncost_sum L ch).
+    { apply es_cost_le.
+      - intros e He0. eapply nth_error_In. apply Hnth; exact He0.
+      - rewrite <- (map_length snd), Hmap. apply alts_nodes_len. }
+    destruct es as [|e1 rest].
+    + (* no child to try *)
+      cbn [map first_some].
+      eapply (backs_step path lazy (S f3) PSelect s' _ f3 PAfter s1 1 2).
+      * exact Hsel.
+      * apply backs_after; auto; try lia. apply cm_lt_nofound. lia.
+      * congruence.
+      * rewrite Hps1. apply extends_refl.
+      * lia.
+      * lia.
+    + cbn [map first_some].
+      set (sd := descend (push_all s1 (map fst rest)) (snd e1)) in *.
+      destruct (push_all_core s1 (map fst rest)) as (Hq1 & Hq2 & Hq3 & Hq4 & Hq5 & Hq6 & Hq7 & Hq8 & Hq9).
+      destruct (Hes e1 (or_introl eq_refl)) as [_ Hwalk1].
+      cbn [es_cost] in Hescost.
+      pose proof (Hwalk1 lazy path f3 sd HL eq_refl) as H1.
+      change (cm sd) with (cm (push_all s1 (map fst rest))) in H1.
+      change (ps sd) with (ps (push_all s1 (map fst rest))) in H1.
+      change (pcnt sd) with (pcnt (push_all s1 (map fst rest))) in H1.
+      rewrite Hq3, Hq5, Hq7, Hcm1, Hps1, Hpc1 in H1.
+      assert (Htd : tinv sd).
+      { unfold tinv. change (tsr sd) with (tsr (push_all s1 (map fst rest))).
+        change (tn sd) with (tn (push_all s1 (map fst rest))). rewrite Hq8, Hq9. exact Ht1. }
+      specialize (H1 Hlt' eq_refl Hpc' Htd ltac:(lia)). rewrite Hrest in H1.
+      destruct (m2 (snd e1) (c :: rest')) as [[l v2]|].
+      * cbn [alt]. destruct H1 as (l' & tps' & E & Er). exists l', tps'. rewrite Hsel, E. auto.
+      * cbn [alt].
+        destruct H1 as (f4 & s2 & He2 & Hf4 & Hsk2 & Hx2 & Ht2 & Hk2).
+        change (sks sd) with (sks (push_all s1 (map fst rest))) in Hsk2. rewrite push_all_sks in Hsk2.
+        change (ps sd) with (ps (push_all s1 (map fst rest))) in Hx2. rewrite Hq7, Hps1 in Hx2.
+        pose proof (pop_alts L path lazy (cur s1) (cm s1) (ps s') (sks s1) HL rest f4 s2) as Hpop.
+        assert (Hsk2' : sks s2 = map (fun e => {| sk_n := cur s1; sk_path := cm s1; sk_pcnt := List.length (ps s');
+                                                   sk_child := fst e |}) rest ++ sks s1).
+        { rewrite Hsk2, map_map. unfold entry. rewrite Hpc1, Hpc'. reflexivity. }
+        specialize (Hpop Hsk2' (fun e0 H0 => Hes e0 (or_intror H0)) Hx2 Ht2 Hk2 ltac:(lia) ltac:(lia)).
+        rewrite Hcm1, Hrest in Hpop.
+        destruct (first_some (map (fun e => m2 (snd e) (c :: rest')) rest)) as [[l v2]|].
+        -- destruct Hpop as (l' & tps' & E & Er). exists l', tps'. rewrite Hsel, He2, E. auto.
+        -- destruct Hpop as (f5 & s5 & He5 & Hf5 & Hsk5 & Hx5 & Ht5 & Hk5).
+           exists f5, s5. split; [rewrite Hsel, He2; exact He5|].
+           repeat split; auto; try congruence; try lia.
+Qed.
+
+Lemma firstn_plus {A} : forall m k (l : list A), firstn (m + k) l = firstn m l ++ firstn k (skipn m l).
+Proof.
+  induction m as [|m IH]; intros k l; simpl; auto. destruct l as [|x l]; simpl.
+  - rewrite firstn_nil. reflexivity.
+  - rewrite IH. reflexivity.
+Qed.
+
+Lemma slice_app (p : bytes) a b c : a <= b -> b <= c -> slice p a c = slice p a b ++ slice p b c.
+Proof.
+  intros H1 H2. unfold slice. replace (c - a) with ((b - a) + (c - b)) by lia.
+  rewrite firstn_plus, skipn_skipn'. replace (b - a + a) with b by lia. reflexivity.
+Qed.
+
+Lemma slice_skipn (p : bytes) a b : a <= b -> slice p a b ++ skipn b p = skipn a p.
+Proof.
+  intros H. unfold slice. replace (skipn b p) with (skipn (b - a) (skipn a p)).
+  - apply firstn_skipn.
+  - rewrite skipn_skipn'. f_equal. lia.
+Qed.
+
+Lemma index_byte_nth : forall q d, index_byte q "/" = Some d -> nth_error q d = Some "/" /\ d < List.length q.
+Proof.
+  induction q as [|x q IH]; intros d; simpl; [discriminate|].
+  destruct (Ascii.eqb_spec x "/") as [->|Hn].
+  - intros [= <-]. simpl. split; auto. lia.
+  - destruct (index_byte q "/") as [d'|]; simpl; [|discriminate]. intros [= <-].
+    destruct (IH d' eq_refl) as [H1 H2]. simpl. split; auto. lia.
+Qed.
+
+Definition cinv (cur0 : node) (cmn0 pkc0 : nat) (sks0 : list skipped) (ps0 : list kv) (s : st) : Prop :=
+  cur s = cur0 /\ cmn s = cmn0 /\ pkc s = pkc0 /\ sks s = sks0 /\ ps s = ps0 /\ tinv s.
+
+Lemma pcatch_loop L lazy path ino sub fin C Cfin start prm cur0 cmn0 pkc0 sks0 ps0 :
+  List.length path <= L -> fresh_ok L ino sub C ->
+  nth_error (nparams cur0) pkc0 = Some prm ->
+  (forall f s1, cinv cur0 cmn0 pkc0 sks0 ps0 s1 ->
+     (index_byte (skipn (cm s1) path) "/" = Some 0 \/ index_byte (skipn (cm s1) path) "/" = None) ->
+     Cfin <= S f ->
+     match fin (skipn start path) with
+     | Some (l, kv) => found_as (lbp (S f) path lazy (PCatch ino start) s1) l (addp lazy ps0 kv)
+     | None => exists fuel' s', lbp (S f) path lazy (PCatch ino start) s1 = lbp fuel' path lazy PBack s' /\
+                 S f <= fuel' + Cfin /\ sks s' = sks0 /\ extends ps0 (ps s') /\ tinv s' /\ pkc s' = 0
+     end) ->
+  forall sf s v q fuel, cinv cur0 cmn0 pkc0 sks0 ps0 s ->
+    skipn (cm s) path = q -> start <= cm s -> cm s <= List.length path -> v = slice path start (cm s) ->
+    List.length q < sf -> (List.length q + 1) * (C + 2) + Cfin + 1 <= fuel ->
+    match scan sf sub fin (pkey prm) v q with
+    | Some (l, kvs) => found_as (lbp fuel path lazy (PCatch ino start) s) l (addp lazy ps0 kvs)
+    | None => exists fuel' s', lbp fuel path lazy (PCatch ino start) s = lbp fuel' path lazy PBack s' /\
+                fuel <= fuel' + ((List.length q + 1) * (C + 2) + Cfin + 1) /\
+                sks s' = sks0 /\ extends ps0 (ps s') /\ tinv s' /\ pkc s' = 0
+    end.
+Proof.
+  intros HL Hsub Hprm0 Hfin.
+  induction sf as [|sf IH]; intros s v q fuel Hinv Hq Hst Hcm Hv Hsf Hfuel; [lia|].
+  subst q v. set (q := skipn (cm s) path) in *. set (v := slice path start (cm s)) in *.
+  assert (Hq : skipn (cm s) path = q) by reflexivity. assert (Hv : v = slice path start (cm s)) by reflexivity.
+  pose proof Hinv as (Hc & Hcn & Hpk & Hsk & Hps & Ht).
+  assert (Hprm : nth_error (nparams (cur s)) (pkc s) = Some prm) by (rewrite Hc, Hpk; exact Hprm0).
+  cbn [scan]. destruct fuel as [|f]; [lia|].
+  destruct (index_byte q "/") as [[|d]|] eqn:Eidx.
+  - (* empty segment: stop *)
+    unfold v, q. rewrite slice_skipn by exact Hst.
+    specialize (Hfin f s Hinv (or_introl Eidx) ltac:(lia)).
+    destruct (fin (skipn start path)) as [[l kv]|]; [exact Hfin|].
+    destruct Hfin as (f' & s' & He & Hf' & H1 & H2 & H3 & H4). exists f', s'. repeat split; auto. lia.
+  - (* a non-empty segment ends at the next '/' *)
+    pose proof (index_byte_nth q (S d) Eidx) as [Hnth Hdl].
+    set (cm' := cm s + S d).
+    assert (Hq' : skipn cm' path = skipn (S d) q).
+    { unfold cm'. rewrite <- Hq, skipn_skipn'. f_equal. lia. }
+    assert (Hlenq : List.length q = List.length path - cm s) by (rewrite <- Hq; apply skipn_length).
+    assert (Hsg : v ++ firstn (S d) q = slice path start cm').
+    { rewrite (slice_app path start (cm s) cm') by (unfold cm'; lia). rewrite <- Hv. f_equal.
+      unfold slice, cm'. rewrite Hq. f_equal. lia. }
+    assert (HLq : List.length (skipn cm' path) <= L) by (rewrite skipn_length; lia).
+    pose proof (Hsub (skipn cm' path) f HLq) as Hs.
+    assert (Hfc : C <= f).
+    { assert ((List.length q + 1) * (C + 2) >= C + 2) by nia. lia. }
+    specialize (Hs Hfc). rewrite <- Hq'.
+    destruct (sub (skipn cm' path)) as [[l kvs]|].
+    + destruct Hs as (l' & stps & Es & Er).
+      exists l', (tps s). rewrite (pcatch_found f path lazy ino start s prm d l' kvs stps Hprm Eidx Es).
+      rewrite Hps, Hsg. auto.
+    + destruct Hs as (tn' & tsr' & sps & stps & Es & Hnd).
+      destruct (pcatch_next f path lazy ino start s prm d tn' tsr' sps stps Hprm Eidx Es Hnd Ht)
+        as (s1 & He1 & Hcore & Ht1 & Hpc1 & Hpk1).
+      destruct Hcore as (Hc1 & _ & _ & Hcn1 & Hsk1 & Hps1).
+      set (s2 := with_cm s1 (S cm')) in *.
+      assert (Hinv2 : cinv cur0 cmn0 pkc0 sks0 ps0 s2).
+      { unfold cinv, s2, with_cm; cbn. repeat split; try congruence. exact Ht1. }
+      assert (Hlen2 : List.length (skipn 1 (skipn cm' path)) = List.length q - S (S d)).
+      { rewrite Hq', !skipn_length. lia. }
+      specialize (IH s2 ((v ++ firstn (S d) q) ++ ["/"]) (skipn 1 (skipn cm' path)) f Hinv2).
+      assert (Hsk2 : skipn (cm s2) path = skipn 1 (skipn cm' path)).
+      { change (cm s2) with (S cm'). rewrite skipn_skipn'. reflexivity. }
+      assert (Hnth' : nth_error path cm' = Some "/").
+      { unfold cm'. rewrite <- Hnth, <- Hq. clear. revert path. generalize (cm s) as a. generalize (S d) as b.
+        intros b a path. revert b. revert path. induction a as [|a IHa]; intros path b; simpl.
+        - reflexivity.
+        - destruct path as [|x path]; simpl; [destruct b; reflexivity|]. apply IHa. }
+      specialize (IH Hsk2 ltac:(change (cm s2) with (S cm'); unfold cm'; lia)
+                     ltac:(change (cm s2) with (S cm'); unfold cm'; lia)).
+      assert (Hv2 : (v ++ firstn (S d) q) ++ ["/"] = slice path start (cm s2)).
+      { change (cm s2) with (S cm'). rewrite (slice_app path start cm' (S cm')) by (unfold cm'; lia).
+        rewrite Hsg. f_equal. unfold slice. replace (S cm' - cm') with 1 by lia.
+        destruct (skipn cm' path) as [|x r] eqn:E.
+        - apply skipn_nil_len in E. apply nth_error_None in E. congruence.
+        - apply skipn_cons_nth in E. destruct E as [E _]. simpl. congruence. }
+      specialize (IH Hv2 ltac:(lia)).
+      assert (Hfu : (List.length (skipn 1 (skipn cm' path)) + 1) * (C + 2) + Cfin + 1 <= f).
+      { rewrite Hlen2. assert ((List.length q + 1) * (C + 2) >= (List.length q - S (S d) + 1) * (C + 2) + (C + 2)) by nia. lia. }
+      specialize (IH Hfu).
+      replace (v ++ firstn (S d) q ++ ["/"]) with ((v ++ firstn (S d) q) ++ ["/"]) by (rewrite <- app_assoc; reflexivity).
+      destruct (scan sf sub fin (pkey prm) ((v ++ firstn (S d) q) ++ ["/"]) (skipn 1 (skipn cm' path))) as [[l kvs]|].
+      * destruct IH as (l' & tps' & E & Er). exists l', tps'. rewrite He1. fold cm'. fold s2. rewrite E. auto.
+      * destruct IH as (f' & s' & He & Hf' & H1 & H2 & H3 & H4). exists f', s'.
+        split; [rewrite He1; fold cm'; fold s2; exact He|]. repeat split; auto.
+        rewrite Hlen2 in Hf'. assert ((List.length q + 1) * (C + 2) >= (List.length q - S (S d) + 1) * (C + 2) + (C + 2)) by nia. lia.
+  - (* no more '/' *)
+    unfold v, q. rewrite slice_skipn by exact Hst.
+    specialize (Hfin f s Hinv (or_intror Eidx) ltac:(lia)).
+    destruct (fin (skipn start path)) as [[l kv]|]; [exact Hfin|].
+    destruct Hfin as (f' & s' & He & Hf' & H1 & H2 & H3 & H4). exists f', s'. repeat split; auto. lia.
+Qed.
+
+Lemma kcost_ge L Csel C0 kt : 6 <= kcost L Csel C0 kt \/ kt = [].
+Proof. destruct kt as [|[d|nm|nm] kt]; auto; left; simpl; lia. Qed.
+
+Lemma kcost_catch_cons L Csel C0 nm t' kt' :
+  kcost L Csel C0 (TCatch nm :: t' :: kt') = 8 + (L + 2) * (8 + kcost L Csel C0 (t' :: kt')).
+Proof. reflexivity. Qed.
+Lemma kcost_catch_nil L Csel C0 nm : kcost L Csel C0 [TCatch nm] = 8 + (L + 2) * (8 + C0).
+Proof. reflexivity. Qed.
+
+Lemma kcost_nil L Csel C0 : kcost L Csel C0 [] = Csel + 4.
+Proof. reflexivity. Qed.
+
+Lemma fresh_of_key L ino kt (sub : bytes -> mres) Ck :
+  nkey ino = render kt -> kt <> [] -> sub [] = None ->
+  (forall path s fuel, List.length path <= L -> s = reset_cmn (init_st ino [] []) -> 0 < List.length path ->
+     Ck <= fuel ->
+     match sub path with
+     | Some (l, vals) => found_as (lbp fuel path false (PInner 0) s) l vals
+     | None => backs path false fuel (PInner 0) s Ck
+     end) ->
+  fresh_ok L ino sub (Ck + 6).
+Proof.
+  intros Hk Hne Hnil Hrun q fuel HL Hf.
+  destruct q as [|c q].
+  - rewrite Hnil. destruct fuel as [|[|[|f]]]; try lia.
+    rewrite walk_ge by (simpl; lia).
+    set (s := init_st ino [] []).
+    destruct (after_fail (S f) [] false s) as (s' & -> & Hc & Ht' & _).
+    + apply cmn_lt_nofound. change (cmn s) with 0. change (nkey (cur s)) with (nkey ino). rewrite Hk.
+      destruct kt as [|t kt]; [congruence|]. rewrite render_cons_len. pose proof (render_tok_len_pos t). lia.
+    + unfold tinv; simpl; auto.
+    + destruct Hc as (_ & _ & _ & _ & Hs & _). rewrite back_nil by (rewrite Hs; reflexivity).
+      do 4 eexists. split; [reflexivity|exact Ht'].
+  - destruct fuel as [|f]; [lia|].
+    rewrite (walk_lt' f (c :: q) false (init_st ino [] [])) by (simpl; lia).
+    specialize (Hrun (c :: q) _ f HL eq_refl ltac:(simpl; lia) ltac:(lia)).
+    destruct (sub (c :: q)) as [[l vals]|]; [exact Hrun|].
+    destruct Hrun as (f' & s' & -> & Hf' & Hs & _ & Ht' & _). simpl in Hs.
+    destruct f' as [|f']; [lia|]. rewrite back_nil by exact Hs.
+    do 4 eexists. split; [reflexivity|exact Ht'].
+Qed.
+
+Lemma key_walk L n Csel :
+  sel_ok L n Csel ->
+  match nchildren n with c0 :: _ => fresh_ok L c0 (m2 c0) (c0cost L (nchildren n)) | [] => True end ->
+  forall kt done lazy path s fuel, List.length path <= L ->
+    nkey (cur s) = render (done ++ kt) -> nroute (cur s) = nroute n -> nchildren (cur s) = nchildren n ->
+    forallb ptok_ok done = true -> kt_ok (cend (nroute n) (nchildren n)) kt = true ->
+    cmn s = List.length (render done) -> pkc s = cnt_wild done -> pcnt s = List.length (ps s) -> tinv s ->
+    cm s <= List.length path ->
+    kcost L Csel (c0cost L (nchildren n)) kt <= fuel ->
+    match km n (Kof n) (sub0of (nchildren n)) kt (skipn (cm s) path) with
+    | Some (l, vals) => found_as (lbp fuel path lazy (PInner (cmn s)) s) l (addp lazy (ps s) vals)
+    | None => backs path lazy fuel (PInner (cmn s)) s (kcost L Csel (c0cost L (nchildren n)) kt)
+    end.
+Proof.
+  intros Hsel Hc0.
+  set (r := nroute n) in *. set (ch := nchildren n) in *. set (C0 := c0cost L ch) in *.
+  induction kt as [|t kt IH]; intros done lazy path s fuel HL Hk Hrt Hch Hokd Hokt0 Hcmn Hpkc Hpc Ht Hcm Hf.
+  - (* key consumed *)
+    cbn [km]. rewrite kcost_nil in *. destruct fuel as [|f]; [lia|].
+    assert (Hex : lbp (S f) path lazy (PInner (cmn s)) s = lbp f path lazy PSelect s).
+    { apply inner_exit. right. rewrite Hk, app_nil_r, Hcmn. lia. }
+    pose proof (Hsel lazy path f s HL Hrt Hch) as Hs.
+    specialize (Hs ltac:(rewrite Hk, app_nil_r; exact Hcmn) Hcm Hpc Ht ltac:(lia)).
+    destruct (Kof n (skipn (cm s) path)) as [[l v2]|].
+    + destruct Hs as (l' & tps' & E & Er). exists l', tps'. rewrite Hex, E. auto.
+    + eapply (backs_step path lazy (S f) _ s _ f PSelect s Csel 1); fin.
+  - assert (Hklen : List.length (nkey (cur s)) = List.length (render done) + List.length (render (t :: kt)))
+      by (rewrite Hk, render_app, app_length; reflexivity).
+    pose proof (render_cons_len t kt) as Hrl. pose proof (render_tok_len_pos t) as Htl.
+    assert (Hk6 : 6 <= kcost L Csel C0 (t :: kt)) by (destruct (kcost_ge L Csel C0 (t :: kt)) as [H|H]; [exact H|discriminate]).
+    destruct (skipn (cm s) path) as [|c p'] eqn:Ep.
+    + (* path exhausted inside the key *)
+      cbn [km]. apply skipn_nil_len in Ep.
+      destruct fuel as [|[|[|f]]]; try lia.
+      eapply backs_step with (k := 3) (cost1 := 1).
+      * rewrite inner_exit by (left; exact Ep). rewrite select_ge by exact Ep. reflexivity.
+      * apply backs_after; auto; try lia. apply cmn_lt_nofound. lia.
+      * reflexivity.
+      * apply extends_refl.
+      * lia.
+      * lia.
+    + pose proof (skipn_cons_nth _ _ _ _ Ep) as (Hpc0 & Hp' & Hlt).
+      assert (Hkey : nth_error (nkey (cur s)) (cmn s) = hd_error (render (t :: kt))).
+      { rewrite Hk, render_app, Hcmn. apply nth_error_app_len. }
+      pose proof (kt_ok_tok _ _ Hokt0) as Htok0.
+      assert (Htokall : forallb tok_ok (done ++ t :: kt) = true)
+        by (rewrite forallb_app, (forallb_ptok_tok _ Hokd); exact Htok0).
+      destruct (kt_ok_cons _ _ _ Hokt0) as [[Hokt1 Hokt2]|(cn & -> & Hcn & Hokt2 & Hend)].
+      2:{ (* catch-all *)
+          simpl in Hkey.
+          destruct (catch_info s done cn kt Hk Htokall Hpkc) as (prm & Hprm & Hpk & Hpe).
+          destruct fuel as [|f]; [lia|].
+          assert (Hlenp : List.length (c :: p') = List.length path - cm s) by (rewrite <- Ep; apply skipn_length).
+          assert (Hv0 : [] = slice path (cm s) (cm s)) by (unfold slice; rewrite Nat.sub_diag; reflexivity).
+          assert (HlenL : List.length (c :: p') <= L) by lia.
+          cbn [km].
+          destruct kt as [|t' kt'].
+          - (* the catch-all ends the key *)
+            specialize (Hend eq_refl). destruct (cend_children _ _ Hend) as [Hnil|(c0 & Hc0e & Hc0s)].
+            + (* no children: it takes the rest of the path *)
+              rewrite Hnil. cbn [sub0of].
+              rewrite (inner_catch_step f path lazy (cmn s) s c prm Hkey Hpc0 Hprm Hpe) by (rewrite Hch; exact Hnil).
+              exists (cur s), (tps s). rewrite Hpk, Ep. split; [reflexivity|exact Hrt].
+            + (* one "/..." child: loop with it *)
+              rewrite Hc0e in Hc0 |- *. cbn [sub0of].
+              assert (Hchs : nchildren (cur s) = c0 :: []) by (rewrite Hch; exact Hc0e).
+              pose proof (inner_catchc_step f path lazy (cmn s) s c prm c0 [] Hkey Hpc0 Hprm Hpe Hchs) as Hstep.
+              set (sc := cstate s (List.length (nkey (cur s)) - cmn s)) in *.
+              pose proof (pcatch_loop L lazy path c0 (m2 c0) (fun v => Some (n, [(cn, v)])) C0 1 (cm s) prm
+                            (cur s) (cmn sc) (pkc s) (sks s) (ps s) HL Hc0 Hprm) as Hloop.
+              assert (Hfin : forall f1 s1, cinv (cur s) (cmn sc) (pkc s) (sks s) (ps s) s1 ->
+                        (index_byte (skipn (cm s1) path) "/" = Some 0 \/ index_byte (skipn (cm s1) path) "/" = None) ->
+                        1 <= S f1 ->
+                        found_as (lbp (S f1) path lazy (PCatch c0 (cm s)) s1) n
+                                 (addp lazy (ps s) [(cn, skipn (cm s) path)])).
+              { intros f1 s1 (Hi1 & Hi2 & Hi3 & Hi4 & Hi5 & Hi6) Hidx _.
+                rewrite (pcatch_final_suffix f1 path lazy c0 (cm s) s1 prm) by (try rewrite Hi1, Hi3; auto).
+                exists (cur s1), (tps s1). rewrite Hi5, Hpk, Hi1. auto. }
+              specialize (Hloop Hfin (S (List.length (c :: p'))) sc [] (c :: p') f).
+              assert (Hinv : cinv (cur s) (cmn sc) (pkc s) (sks s) (ps s) sc) by (repeat split; auto).
+              specialize (Hloop Hinv Ep (Nat.le_refl _) Hcm Hv0 (Nat.lt_succ_diag_r _)).
+              assert (Hfu : (List.length (c :: p') + 1) * (C0 + 2) + 1 + 1 <= f).
+              { rewrite kcost_catch_nil in Hf. assert ((L + 2) * (8 + C0) >= (List.length (c :: p') + 2) * (8 + C0)) by (apply Nat.mul_le_mono_r; lia). nia. }
+              specialize (Hloop Hfu). rewrite Hpk in Hloop.
+              match type of Hloop with match ?X with _ => _ end =>
+                match goal with |- match ?Y with _ => _ end => change Y with X; destruct X as [[l kvs]|] end end.
+              * destruct Hloop as (l' & tps' & E & Er). exists l', tps'. rewrite Hstep, E. auto.
+              * destruct Hloop as (f' & s' & He & Hf' & H1 & H2 & H3 & H4). exists f', s'.
+                split; [rewrite Hstep; exact He|]. repeat split; auto.
+                rewrite kcost_catch_nil. assert ((L + 2) * (8 + C0) >= (List.length (c :: p') + 2) * (8 + C0)) by (apply Nat.mul_le_mono_r; lia). nia.
+          - (* infix catch-all: loop with the truncated copy of the node *)
+            set (kt1 := t' :: kt') in *.
+            set (e := List.length (render done) + List.length cn + 3) in *.
+            set (ino := Node (render kt1) (nroute (cur s)) (nchildren (cur s))).
+            assert (Hino : inode (cur s) = Some ino) by (apply (inode_render (cur s) done cn kt1); auto; discriminate).
+            assert (Hpe' : pend prm = Some e) by exact Hpe.
+            pose proof (inner_infix_step f path lazy (cmn s) s c prm e ino Hkey Hpc0 Hprm Hpe' ltac:(unfold e; lia) Hino) as Hstep.
+            set (sc := cstate s (e - cmn s)) in *.
+            set (Ck := kcost L Csel C0 kt1) in *.
+            assert (Hfresh : fresh_ok L ino (km n (Kof n) (sub0of ch) kt1) (Ck + 6)).
+            { apply (fresh_of_key L ino kt1); [reflexivity|discriminate|reflexivity|].
+              intros path0 s0 fuel0 HL0 Hs0 Hpos Hfu0.
+              pose proof (IH [] false path0 s0 fuel0 HL0) as IH0. subst s0.
+              specialize (IH0 eq_refl Hrt Hch eq_refl Hokt2 eq_refl eq_refl eq_refl).
+              specialize (IH0 ltac:(unfold tinv; simpl; auto) ltac:(simpl; lia) Hfu0).
+              exact IH0. }
+            pose proof (pcatch_loop L lazy path ino (km n (Kof n) (sub0of ch) kt1) (fun _ => None) (Ck + 6) 3 (cm s) prm
+                          (cur s) (cmn sc) (pkc s) (sks s) (ps s) HL Hfresh Hprm) as Hloop.
+            assert (Hfin : forall f1 s1, cinv (cur s) (cmn sc) (pkc s) (sks s) (ps s) s1 ->
+                      (index_byte (skipn (cm s1) path) "/" = Some 0 \/ index_byte (skipn (cm s1) path) "/" = None) ->
+                      3 <= S f1 ->
+                      exists fuel' s', lbp (S f1) path lazy (PCatch ino (cm s)) s1 = lbp fuel' path lazy PBack s' /\
+                        S f1 <= fuel' + 3 /\ sks s' = sks s /\ extends (ps s) (ps s') /\ tinv s' /\ pkc s' = 0).
+            { intros f1 s1 (Hi1 & Hi2 & Hi3 & Hi4 & Hi5 & Hi6) Hidx Hf1.
+              destruct (pcatch_final_infix f1 path lazy ino (cm s) s1 prm e) as (s2 & He2 & Hc2 & Hn2 & Hk2 & Hx2 & Hts2 & Htn2);
+                try rewrite Hi1, Hi3; auto.
+              destruct f1 as [|f2]; [lia|].
+              destruct (after_fail f2 path lazy s2) as (s3 & He3 & Hcore3 & Ht3 & _ & Hk3).
+              - apply cmn_lt_nofound. rewrite Hn2, Hi2, Hc2, Hi1, Hklen.
+                change (cmn sc) with (cmn s + (e - cmn s)). unfold e.
+                change (render (TCatch cn :: kt1)) with (("*" :: "{" :: cn ++ ["}"]) ++ render kt1).
+                rewrite app_length. cbn [List.length]. rewrite app_length. cbn [List.length].
+                pose proof (render_cons_len t' kt'). pose proof (render_tok_len_pos t'). fold kt1 in H. lia.
+              - unfold tinv. rewrite Hts2, Htn2. exact Hi6.
+              - destruct Hcore3 as (_ & _ & _ & _ & Hs3 & Hp3).
+                exists f2, s3. split; [rewrite He2; exact He3|]. repeat split; auto; try lia; try congruence. }
+            specialize (Hloop Hfin (S (List.length (c :: p'))) sc [] (c :: p') f).
+            assert (Hinv : cinv (cur s) (cmn sc) (pkc s) (sks s) (ps s) sc) by (repeat split; auto).
+            specialize (Hloop Hinv Ep (Nat.le_refl _) Hcm Hv0 (Nat.lt_succ_diag_r _)).
+            assert (Hfu : (List.length (c :: p') + 1) * (Ck + 6 + 2) + 3 + 1 <= f).
+            { unfold kt1 in Hf. rewrite kcost_catch_cons in Hf. fold kt1 in Hf. fold Ck in Hf.
+              assert ((L + 2) * (8 + Ck) >= (List.length (c :: p') + 2) * (8 + Ck)) by (apply Nat.mul_le_mono_r; lia). nia. }
+            specialize (Hloop Hfu). rewrite Hpk in Hloop.
+            match type of Hloop with match ?X with _ => _ end =>
+              match goal with |- match ?Y with _ => _ end => change Y with X; destruct X as [[l kvs]|] end end.
+            + destruct Hloop as (l' & tps' & E & Er). exists l', tps'. rewrite Hstep, E. auto.
+            + destruct Hloop as (f' & s' & He & Hf' & H1 & H2 & H3 & H4). exists f', s'.
+              split; [rewrite Hstep; exact He|]. repeat split; auto.
+              unfold kt1. rewrite kcost_catch_cons. fold kt1. fold Ck.
+              assert ((L + 2) * (8 + Ck) >= (List.length (c :: p') + 2) * (8 + Ck)) by (apply Nat.mul_le_mono_r; lia). nia. }
+      destruct t as [d|nm|nm]; [| |discriminate].
+      * (* static byte *)
+        simpl in Hkey, Hokt1. cbn [km].
+        destruct fuel as [|f]; [lia|].
+        pose proof (inner_static_step f path lazy (cmn s) s d c Hkey Hpc0 Hokt1) as Hstep.
+        destruct (Ascii.eqb d c && sbyte c) eqn:E.
+        -- assert (Hr1 : List.length (render (done ++ [TStatic d])) = S (List.length (render done)))
+             by (rewrite render_app, app_length; simpl; lia).
+           assert (Hcw : cnt_wild (done ++ [TStatic d]) = cnt_wild done).
+           { unfold cnt_wild. rewrite filter_app, app_length. simpl. lia. }
+           assert (IH' := IH (done ++ [TStatic d]) lazy path (adv s 1) f HL).
+           rewrite <- app_assoc in IH'. simpl app in IH'.
+           assert (Hd1 : forallb ptok_ok (done ++ [TStatic d]) = true)
+             by (rewrite forallb_app, Hokd; simpl; rewrite Hokt1; reflexivity).
+           specialize (IH' Hk Hrt Hch Hd1 Hokt2).
+           specialize (IH' ltac:(change (cmn (adv s 1)) with (S (cmn s)); rewrite Hr1; lia)
+                           ltac:(change (pkc (adv s 1)) with (pkc s); rewrite Hcw; exact Hpkc) Hpc Ht
+                           ltac:(change (cm (adv s 1)) with (S (cm s)); lia) ltac:(cbn [kcost] in Hf; lia)).
+           change (cm (adv s 1)) with (S (cm s)) in IH'. rewrite Hp' in IH'.
+           change (cmn (adv s 1)) with (S (cmn s)) in IH'.
+           cbn [kcost].
+           destruct (km n (Kof n) (sub0of ch) kt p') as [[l vals]|].
+           ++ replace vals with ([] ++ vals) by reflexivity.
+              eapply (found_step path lazy (S f) _ s _ [] vals f _ (adv s 1)); fin.
+           ++ eapply (backs_step path lazy (S f) _ s _ f _ (adv s 1) _ 1); fin.
+        -- eapply (backs_step path lazy (S f) _ s _ f PAfter s 1 1); fin.
+           apply backs_after; auto; try lia. apply cm_lt_nofound. exact Hlt.
+      * (* named parameter *)
+        simpl in Hkey.
+        destruct (param_info s done nm kt Hk) as (prm & Hprm & Hpk & Hadv); auto.
+        destruct fuel as [|f]; [lia|].
+        pose proof (inner_param_step f path lazy (cmn s) s c prm Hkey Hpc0 Hprm) as Hstep.
+        rewrite Hadv, Hpk, Ep in Hstep.
+        pose proof (index_byte_seg (c :: p')) as Hseg.
+        cbn [km].
+        assert (Hgen : forall cm', cm' = cm s + List.length (seg is_slash (c :: p')) ->
+                  seg is_slash (c :: p') <> [] ->
+                  List.length (seg is_slash (c :: p')) <= List.length (c :: p') ->
+                  slice path (cm s) cm' = seg is_slash (c :: p') ->
+                  lbp (S f) path lazy (PInner (cmn s)) s =
+                  lbp f path lazy (PInner (cmn s + (List.length nm + 2)))
+                    (pstate lazy s cm' (List.length nm + 2) nm (slice path (cm s) cm')) ->
+                  match match seg is_slash (c :: p') with
+                        | [] => None
+                        | a :: l => with_vals [(nm, a :: l)] (km n (Kof n) (sub0of ch) kt (skipn (List.length (a :: l)) (c :: p')))
+                        end with
+                  | Some (l, vals) => found_as (lbp (S f) path lazy (PInner (cmn s)) s) l (addp lazy (ps s) vals)
+                  | None => backs path lazy (S f) (PInner (cmn s)) s (kcost L Csel C0 (TParam nm :: kt))
+                  end).
+        { intros cm' Hcm' Hvne Hvlen Hslice Hst. clear Hseg.
+          destruct (seg is_slash (c :: p')) as [|v0 vv] eqn:Ev; [congruence|]. set (v := v0 :: vv) in *.
+          rewrite Hslice in Hst. set (s1 := pstate lazy s cm' (List.length nm + 2) nm v) in *.
+          assert (Hr1 : List.length (render (done ++ [TParam nm])) = List.length (render done) + (List.length nm + 2)).
+          { rewrite render_app, app_length. f_equal. change (render [TParam nm]) with (("{" :: nm ++ ["}"]) ++ []).
+            rewrite app_nil_r. cbn [List.length]. rewrite app_length. simpl. lia. }
+          assert (Hcw : cnt_wild (done ++ [TParam nm]) = S (cnt_wild done)).
+          { unfold cnt_wild. rewrite filter_app, app_length. simpl. lia. }
+          assert (Hlenp : List.length (c :: p') = List.length path - cm s) by (rewrite <- Ep; apply skipn_length).
+          assert (IH' := IH (done ++ [TParam nm]) lazy path s1 f HL).
+          rewrite <- app_assoc in IH'. simpl app in IH'.
+          assert (Hd1 : forallb ptok_ok (done ++ [TParam nm]) = true)
+            by (rewrite forallb_app, Hokd; cbn [forallb]; rewrite Hokt1; reflexivity).
+          specialize (IH' Hk Hrt Hch Hd1 Hokt2).
+          specialize (IH' ltac:(change (cmn s1) with (cmn s + (List.length nm + 2)); rewrite Hr1; lia)
+                          ltac:(change (pkc s1) with (S (pkc s)); rewrite Hcw, Hpkc; reflexivity)).
+          assert (Hpc1 : pcnt s1 = List.length (ps s1)).
+          { unfold s1, pstate; cbn [pcnt ps]. destruct lazy; auto. rewrite app_length. simpl. lia. }
+          specialize (IH' Hpc1 Ht ltac:(change (cm s1) with cm'; lia) ltac:(cbn [kcost] in Hf; lia)).
+          change (cm s1) with cm' in IH'.
+          assert (Hsk : skipn cm' path = skipn (List.length v) (c :: p')).
+          { rewrite <- Ep, skipn_skipn'. f_equal. lia. }
+          rewrite Hsk in IH'.
+          assert (Hx : extends (ps s) (ps s1)).
+          { unfold s1, pstate; cbn [ps]. destruct lazy; [apply extends_refl|].
+            unfold extends. rewrite firstn_app, Nat.sub_diag, firstn_all. simpl. apply app_nil_r. }
+          cbn [kcost].
+          destruct (km n (Kof n) (sub0of ch) kt (skipn (List.length v) (c :: p'))) as [[l vals]|]; cbn [with_vals].
+          - eapply (found_step path lazy (S f) _ s _ [(nm, v)] vals f _ s1); fin.
+          - eapply (backs_step path lazy (S f) _ s _ f _ s1 _ 1); fin. }
+        destruct (index_byte (c :: p') "/") as [[|dd]|] eqn:Eidx.
+        -- (* empty segment *)
+           destruct Hseg as (Hs1 & _ & _). rewrite Hs1. cbn [firstn].
+           eapply (backs_step path lazy (S f) _ s _ f PAfter s 1 1); fin.
+           apply backs_after; auto; try lia. apply cm_lt_nofound. exact Hlt.
+        -- destruct Hseg as (Hs1 & Hs2 & Hs3). cbv zeta in Hstep.
+           apply (Hgen (cm s + S dd)); auto.
+           ++ rewrite Hs1. simpl. discriminate.
+           ++ lia.
+           ++ unfold slice. rewrite Ep, Hs1. f_equal. lia.
+        -- cbv zeta in Hstep.
+           assert (Hlenp : List.length (c :: p') = List.length path - cm s) by (rewrite <- Ep; apply skipn_length).
+           apply (Hgen (List.length path)); auto.
+           ++ rewrite Hseg, Hlenp. lia.
+           ++ rewrite Hseg. discriminate.
+           ++ rewrite Hseg. lia.
+           ++ unfold slice. rewrite Ep, Hseg, <- Hlenp. apply firstn_all.
+Qed.
+
+Lemma m2_nil_path k r ch kt : k = render kt -> kt <> [] -> forallb tok_ok kt = true -> m2 (Node k r ch) [] = None.
+Proof.
+  intros -> Hne Hok. rewrite m2_eq, tokenize_render by exact Hok. destruct kt as [|t kt]; [congruence|]. reflexivity.
+Qed.
+
+Lemma fresh_of_walk L pre c0 : pwf pre c0 -> walk_ok L c0 -> fresh_ok L c0 (m2 c0) (ncost L c0 + 8).
+Proof.
+  intros Hwf Hwalk q fuel HL Hf. destruct c0 as [k r ch].
+  pose proof (pwf_inv _ _ _ _ Hwf) as (kt & Hne & Hk & Hok & _).
+  destruct q as [|c q].
+  - rewrite (m2_nil_path k r ch kt Hk Hne (kt_ok_tok _ _ Hok)).
+    destruct fuel as [|[|[|f]]]; try lia.
+    rewrite walk_ge by (simpl; lia).
+    set (s := init_st (Node k r ch) [] []).
+    destruct (after_fail (S f) [] false s) as (s' & -> & Hc & Ht' & _).
+    + apply cmn_lt_nofound. change (cmn s) with 0. change (nkey (cur s)) with k. rewrite Hk.
+      destruct kt as [|t kt]; [congruence|]. rewrite render_cons_len. pose proof (render_tok_len_pos t). lia.
+    + unfold tinv; simpl; auto.
+    + destruct Hc as (_ & _ & _ & _ & Hs & _). rewrite back_nil by (rewrite Hs; reflexivity).
+      do 4 eexists. split; [reflexivity|exact Ht'].
+  - pose proof (Hwalk false (c :: q) fuel (init_st (Node k r ch) [] []) HL eq_refl) as H.
+    simpl cm in H. simpl skipn in H.
+    specialize (H ltac:(simpl; lia) eq_refl eq_refl ltac:(unfold tinv; simpl; auto) ltac:(lia)).
+    destruct (m2 (Node k r ch) (c :: q)) as [[l vals]|]; [exact H|].
+    destruct H as (f' & s' & -> & Hf' & Hs & _ & Ht' & _). simpl in Hs.
+    destruct f' as [|f']; [lia|]. rewrite back_nil by exact Hs.
+    do 4 eexists. split; [reflexivity|exact Ht'].
+Qed.
+
+Lemma walk_m2 L : forall n pre, pwf pre n -> walk_ok L n.
+Proof.
+  induction n as [k r ch IH] using node_ind'. intros pre Hwf.
+  pose proof (pwf_inv _ _ _ _ Hwf) as (kt & Hne & Hk & Hok & Hr & Hnd & Hch).
+  rewrite Forall_forall in IH, Hch.
+  assert (Hwalk : forall x, In x ch -> walk_ok L x) by (intros x Hx; apply (IH x Hx (pre ++ k)); auto).
+  pose proof (sel_ok_node L (Node k r ch) Hnd Hwalk) as Hsel. cbn [nchildren] in Hsel.
+  assert (Hc0 : match ch with c0 :: _ => fresh_ok L c0 (m2 c0) (c0cost L ch) | [] => True end).
+  { destruct ch as [|c0 ch']; [exact I|]. cbn [c0cost].
+    apply (fresh_of_walk L (pre ++ k)); [apply Hch|apply Hwalk]; left; reflexivity. }
+  intros lazy path fuel s HL Hcur Hlt Hpkc Hpc Ht Hfuel.
   rewrite ncost_eq in *.
-  assert (Hkl : List.length k = List.length (render kt)) by (rewrite Hk; reflexivity).
+  assert (Htk : tokenize k = kt) by (rewrite Hk; apply tokenize_render; eapply kt_ok_tok; eauto).
+  rewrite Htk in *.
   destruct fuel as [|f1]; [lia|].
   pose proof (walk_lt' f1 path lazy s Hlt) as Hw.
   set (s0 := reset_cmn s) in *.
-  pose proof (inner_tok path lazy (lnc r ch) kt [] s0 f1) as Hin.
-  simpl app in Hin. change (cur s0) with (cur s) in Hin. rewrite Hcur in Hin. cbn [nkey nchildren] in Hin.
-  specialize (Hin Hk eq_refl Hok (lnc_nochild r ch) eq_refl Hpkc Hpc Ht
+  pose proof (key_walk L (Node k r ch) _ Hsel Hc0 kt [] lazy path s0 f1 HL) as Hkw.
+  simpl app in Hkw. change (cur s0) with (cur s) in Hkw. rewrite Hcur in Hkw. cbn [nkey nroute nchildren] in Hkw.
+  specialize (Hkw Hk eq_refl eq_refl eq_refl Hok eq_refl Hpkc Hpc Ht
                   ltac:(change (cm s0) with (cm s); lia) ltac:(lia)).
-  change (cm s0) with (cm s) in Hin. change (cmn s0) with 0 in Hin.
-  rewrite m2_eq, Hk, tokenize_render by (eapply kt_ok_tok; exact Hok).
-  destruct (kmatch kt (skipn (cm s) path) []) as [rest vals|vals| |].
-  - destruct Hin as (f2 & s' & He & Hf2 & Hc' & Hp' & Hrest & Hcm' & Hcmn' & Hsk' & Hps' & Hpc' & Ht').
-    change (cmn s0) with 0 in He. change (cur s0) with (cur s) in *. change (sks s0) with (sks s) in *. change (ps s0) with (ps s) in *.
-    rewrite Hcur in Hc', Hcmn'. simpl nkey in Hcmn'.
-    assert (Hx0 : extends (ps s) (ps s')) by (rewrite Hps'; apply extends_addp_self).
-    destruct rest as [|c rest'].
-    + (* the path ends with this key *)
-      apply skipn_nil_len in Hrest.
-      destruct f2 as [|[|f3]]; try lia.
-      pose proof (select_ge f3 path lazy s' Hrest) as Hsel.
-      destruct r as [rt|].
-      * destruct f3 as [|f4]; [lia|].
-        exists (tps s'). rewrite Hw, He, Hsel.
-        rewrite after_found; [| rewrite Hc'; reflexivity | lia | rewrite Hc'; simpl; lia].
-        rewrite Hc', Hps', <- Hk. reflexivity.
-      * eapply (backs_step path lazy (S f1) PWalk s _ f3 PAfter s' 1 (List.length k + 4)).
-        -- rewrite Hw, He, Hsel. reflexivity.
-        -- apply backs_after; auto; try lia. rewrite Hc'. reflexivity.
-        -- exact Hsk'.
-        -- exact Hx0.
-        -- lia.
-        -- lia.
-    + (* the path continues: children, in the order static, parameter, catch-all *)
-      pose proof (skipn_cons_nth _ _ _ _ Hrest) as (Hnc & _ & Hlt').
-      assert (Hch' : nchildren (cur s') = ch) by (rewrite Hc'; reflexivity).
-      rewrite Forall_forall in IH, Hch.
-      destruct f2 as [|f3]; [lia|].
-      destruct (select_alts f3 path lazy s' c Hlt' Hnc) as (s1 & es & Hmap & Hnth & Hcore & Ht1 & Hpc1 & Hsel); auto.
-      { rewrite Hch'. exact Hnd. }
-      rewrite Hch' in Hmap, Hnth.
-      destruct Hcore as (Hc1 & _ & Hcm1 & _ & Hsk1 & Hps1).
-      rewrite alts_first_some, <- Hmap, map_map.
-      assert (Hes : forall e, In e es -> nth_error (nchildren (cur s1)) (fst e) = Some (snd e) /\ walk_ok path lazy (snd e)).
-      { intros e He0. pose proof (Hnth e He0) as Hn. split; [rewrite Hc1, Hch'; exact Hn|].
-        apply nth_error_In in Hn. apply (IH _ Hn (pre ++ k)). apply Hch; exact Hn. }
-      assert (Hescost : es_cost es <= 3 * ncost_sum ch).
-      { apply es_cost_le.
-        - intros e He0. eapply nth_error_In. apply Hnth; exact He0.
-        - rewrite <- (map_length snd), Hmap. apply alts_nodes_len. }
-      destruct es as [|e1 rest].
-      * (* no child to try *)
-        cbn [map first_some with_vals].
-        eapply (backs_step path lazy (S f1) PWalk s _ f3 PAfter s1 1 (List.length k + 4)).
-        -- rewrite Hw, He, Hsel. reflexivity.
-        -- apply backs_after; auto; try lia. apply cm_lt_nofound. lia.
-        -- congruence.
-        -- rewrite Hps1. exact Hx0.
-        -- lia.
-        -- lia.
-      * cbn [map first_some].
-        set (sd := descend (push_all s1 (map fst rest)) (snd e1)) in *.
-        destruct (push_all_core s1 (map fst rest)) as (Hq1 & Hq2 & Hq3 & Hq4 & Hq5 & Hq6 & Hq7 & Hq8 & Hq9).
-        destruct (Hes e1 (or_introl eq_refl)) as [_ Hwalk1].
-        cbn [es_cost] in Hescost.
-        pose proof (Hwalk1 f3 sd eq_refl) as H1.
-        change (cm sd) with (cm (push_all s1 (map fst rest))) in H1.
-        change (ps sd) with (ps (push_all s1 (map fst rest))) in H1.
-        change (pcnt sd) with (pcnt (push_all s1 (map fst rest))) in H1.
-        rewrite Hq3, Hq5, Hq7, Hcm1, Hps1, Hpc1 in H1.
-        assert (Htd : tinv sd).
-        { unfold tinv. change (tsr sd) with (tsr (push_all s1 (map fst rest))).
-          change (tn sd) with (tn (push_all s1 (map fst rest))). rewrite Hq8, Hq9. exact Ht1. }
-        specialize (H1 Hlt' eq_refl Hpc' Htd ltac:(lia)). rewrite Hrest in H1.
-        destruct (m2 (snd e1) (c :: rest')) as [[l v2]|].
-        -- cbn [alt with_vals]. destruct H1 as [tps' E]. exists tps'. rewrite Hw, He, Hsel, E.
-           rewrite Hps', addp_addp. reflexivity.
-        -- cbn [alt].
-           destruct H1 as (f4 & s2 & He2 & Hf4 & Hsk2 & Hx2 & Ht2 & Hk2).
-           change (sks sd) with (sks (push_all s1 (map fst rest))) in Hsk2. rewrite push_all_sks in Hsk2.
-           change (ps sd) with (ps (push_all s1 (map fst rest))) in Hx2. rewrite Hq7, Hps1 in Hx2.
-           pose proof (pop_alts path lazy (cur s1) (cm s1) (ps s') (sks s1) rest f4 s2) as Hpop.
-           assert (Hsk2' : sks s2 = map (fun e => {| sk_n := cur s1; sk_path := cm s1; sk_pcnt := List.length (ps s');
-                                                      sk_child := fst e |}) rest ++ sks s1).
-           { rewrite Hsk2, map_map. unfold entry. rewrite Hpc1, Hpc'. reflexivity. }
-           specialize (Hpop Hsk2' (fun e0 H0 => Hes e0 (or_intror H0)) Hx2 Ht2 Hk2 ltac:(lia) ltac:(lia)).
-           rewrite Hcm1, Hrest in Hpop.
-           destruct (first_some (map (fun e => m2 (snd e) (c :: rest')) rest)) as [[l v2]|].
-           ++ cbn [with_vals]. destruct Hpop as [tps' E]. exists tps'. rewrite Hw, He, Hsel, He2, E.
-              rewrite Hps', addp_addp. reflexivity.
-           ++ cbn [with_vals]. destruct Hpop as (f5 & s5 & He5 & Hf5 & Hsk5 & Hx5 & Ht5 & Hk5).
-              exists f5, s5. split; [rewrite Hw, He, Hsel, He2; exact He5|].
-              repeat split; auto; try congruence; try lia.
-              eapply extends_trans; eauto.
-  - (* suffix catch-all inside this key *)
-    destruct Hin as [tps' E]. change (cur s0) with (cur s) in E. change (ps s0) with (ps s) in E.
-    exists tps'. rewrite Hw, E, <- Hk. reflexivity.
-  - eapply (backs_step path lazy (S f1) PWalk s _ f1 _ s0 _ 1); [exact Hw|exact Hin|reflexivity|apply extends_refl|lia|lia].
-  - eapply (backs_step path lazy (S f1) PWalk s _ f1 _ s0 _ 1); [exact Hw|exact Hin|reflexivity|apply extends_refl|lia|lia].
+  change (cm s0) with (cm s) in Hkw. change (cmn s0) with 0 in Hkw. change (ps s0) with (ps s) in Hkw.
+  rewrite m2_eq, Htk.
+  destruct (km (Node k r ch) (Kof (Node k r ch)) (sub0of ch) kt (skipn (cm s) path)) as [[l vals]|].
+  - destruct Hkw as (l' & tps' & E & Er). exists l', tps'. rewrite Hw, E. auto.
+  - eapply (backs_step path lazy (S f1) PWalk s _ f1 _ s0 _ 1); [exact Hw|exact Hkw|reflexivity|apply extends_refl|lia|lia].
 Qed.
 
-(* a result that is not a direct hit *)
-Definition nodirect2 (r : lres) : Prop :=
-  exists tn' tsr' ps' tps', r = Found tn' tsr' ps' tps' /\ (tsr' = false -> tn' = None).
+Definition m2_fuel (path : bytes) (t : node) : nat := ncost (List.length path) t + 8.
 
-Definition m2_fuel (t : node) : nat := ncost t + 4.
-
-Theorem lbp_eq_m2 t path lazy fuel : pwf [] t -> m2_fuel t <= fuel ->
+Theorem lbp_eq_m2 t path lazy fuel : pwf [] t -> m2_fuel path t <= fuel ->
   match m2 t path with
   | Some (l, vals) => found_as (lookup_by_path fuel t path lazy [] []) l (addp lazy [] vals)
   | None => nodirect2 (lookup_by_path fuel t path lazy [] [])
@@ -1088,18 +1563,17 @@ Proof.
   intros Hwf Hf. unfold lookup_by_path, m2_fuel in *.
   destruct path as [|c path].
   - destruct t as [k r ch]. pose proof (pwf_inv _ _ _ _ Hwf) as (kt & Hne & Hk & Hok & _).
-    subst k. rewrite m2_eq, tokenize_render by (eapply kt_ok_tok; exact Hok).
-    destruct kt as [|t0 kt]; [congruence|]. cbn [kmatch].
-    rewrite ncost_eq in Hf. destruct fuel as [|[|[|f]]]; try lia.
+    rewrite (m2_nil_path k r ch kt Hk Hne (kt_ok_tok _ _ Hok)).
+    destruct fuel as [|[|[|f]]]; try lia.
     rewrite walk_ge by (simpl; lia).
-    set (s := init_st (Node (render (t0 :: kt)) r ch) [] []).
+    set (s := init_st (Node k r ch) [] []).
     destruct (after_fail (S f) [] lazy s) as (s' & -> & Hc & Ht' & _).
-    + apply cmn_lt_nofound. change (cmn s) with 0. change (nkey (cur s)) with (render (t0 :: kt)).
-      rewrite render_cons_len. pose proof (render_tok_len_pos t0). lia.
+    + apply cmn_lt_nofound. change (cmn s) with 0. change (nkey (cur s)) with k. rewrite Hk.
+      destruct kt as [|t kt]; [congruence|]. rewrite render_cons_len. pose proof (render_tok_len_pos t). lia.
     + unfold tinv; simpl; auto.
     + destruct Hc as (_ & _ & _ & _ & Hs & _). rewrite back_nil by (rewrite Hs; reflexivity).
       do 4 eexists. split; [reflexivity|exact Ht'].
-  - pose proof (walk_m2 (c :: path) lazy t [] Hwf fuel (init_st t [] []) eq_refl) as H.
+  - pose proof (walk_m2 (List.length (c :: path)) t [] Hwf lazy (c :: path) fuel (init_st t [] []) (Nat.le_refl _) eq_refl) as H.
     simpl cm in H. simpl skipn in H.
     specialize (H ltac:(simpl; lia) eq_refl eq_refl ltac:(unfold tinv; simpl; auto) ltac:(lia)).
     destruct (m2 t (c :: path)) as [[l vals]|]; [exact H|].
@@ -1107,6 +1581,7 @@ Proof.
     destruct f' as [|f']; [lia|]. rewrite back_nil by exact Hs.
     do 4 eexists. split; [reflexivity|exact Ht'].
 Qed.
+
 
 (* ------------------------------------------------------------------ *)
 (* M2 = S: candidates of a subtree                                      *)
@@ -1294,7 +1769,7 @@ Definition tl_cands (x : node) : list cand := cands (tl (tokenize (nkey x))) (nr
 
 Lemma pwf_tokens pre x : pwf pre x ->
   exists t kt, tokenize (nkey x) = t :: kt /\ nkey x = render (t :: kt) /\
-               kt_ok (lnc (nroute x) (nchildren x)) (t :: kt) = true.
+               kt_ok (cend (nroute x) (nchildren x)) (t :: kt) = true.
 Proof.
   destruct x as [k r ch]. intros H. apply pwf_inv in H. destruct H as (kt & Hne & -> & Hok & _).
   destruct kt as [|t kt]; [congruence|]. exists t, kt. cbn [nkey nroute nchildren].
@@ -1447,54 +1922,228 @@ Definition lpat (l : node) : bytes := match nroute l with Some rt => rpat rt | N
 Definition res_of (vals : list bytes) (r : mres) : option (bytes * list bytes) :=
   match r with Some (l, kvs) => Some (lpat l, rev vals ++ map snd kvs) | None => None end.
 
-Definition fin (n : node) (kr : kres) : mres :=
-  match kr with
-  | KDone [] vals => match nroute n with Some _ => Some (n, vals) | None => None end
-  | KDone (c :: rest) vals =>
-      with_vals vals (alt (m2_child c (nchildren n) (c :: rest))
-                        (alt (m2_child "{" (nchildren n) (c :: rest)) (m2_child "*" (nchildren n) (c :: rest))))
-  | KCatch vals => Some (n, vals)
-  | _ => None
-  end.
-Definition m2k (n : node) (kt : list token) (p : bytes) : mres := fin n (kmatch kt p []).
-
-Lemma m2_m2k n p : m2 n p = m2k n (tokenize (nkey n)) p.
+Lemma try_splits_none {A} (F : bytes -> bytes -> option A) s : (forall v rest, F v rest = None) ->
+  forall k i, try_splits k i s F = None.
 Proof.
-  destruct n as [k r ch]. rewrite m2_eq. unfold m2k, fin. simpl.
-  destruct (kmatch (tokenize k) p []) as [[|c rest] vals|vals| |]; reflexivity.
+  intros HF. induction k as [|k IH]; intros i; [reflexivity|]. rewrite try_splits_S, IH, HF.
+  unfold orelse. destruct (split_ok s i); reflexivity.
+Qed.
+
+Lemma select_cands_catch f nm kt r ch c p' vals :
+  select (S f) (cands (TCatch nm :: kt) r ch) (c :: p') 0 vals =
+  try_splits (List.length (c :: p')) 1 (c :: p') (fun v rest => select f (cands kt r ch) rest 0 (v :: vals)).
+Proof.
+  cbn [select]. rewrite adv_param_cands_catch, adv_catch_cands_catch, adv_static_cands_catch.
+  cbn [Nat.eqb negb]. unfold orelse at 1 2.
+  assert ((if Ascii.eqb c "{" || Ascii.eqb c "*" then None else @None (bytes * list bytes)) = None) as ->
+    by (destruct (Ascii.eqb c "{" || Ascii.eqb c "*"); reflexivity).
+  destruct (cands kt r ch) as [|k0 l] eqn:E; [|reflexivity].
+  symmetry. apply try_splits_none. intros v rest. apply select_nil.
+Qed.
+
+(* ---- try_splits against the catch-all scan ---- *)
+Lemma ts_skip {A} (F : bytes -> bytes -> option A) s : forall m k i,
+  (forall j, i <= j < i + m -> split_ok s j = false) ->
+  try_splits (m + k) i s F = try_splits k (i + m) s F.
+Proof.
+  induction m as [|m IH]; intros k i H.
+  - simpl. rewrite Nat.add_0_r. reflexivity.
+  - change (S m + k) with (S (m + k)). rewrite try_splits_S. rewrite (H i) by lia. unfold orelse.
+    rewrite IH by (intros j Hj; apply H; lia). f_equal. lia.
+Qed.
+
+Lemma split_ok_nonslash s j x r : skipn j s = x :: r -> x <> "/" -> split_ok s j = false.
+Proof.
+  intros H Hx. unfold split_ok. rewrite H.
+  destruct x as [b0 b1 b2 b3 b4 b5 b6 b7].
+  destruct b0, b1, b2, b3, b4, b5, b6, b7; try reflexivity. congruence.
+Qed.
+
+Lemma split_ok_slash s j r : skipn j s = "/" :: r -> last (firstn j s) "/" <> "/" -> hd "/" s <> "/" ->
+  split_ok s j = true.
+Proof.
+  intros H H1 H2. unfold split_ok. rewrite H.
+  destruct (Ascii.eqb_spec (last (firstn j s) "/") "/"); [congruence|].
+  destruct (Ascii.eqb_spec (hd "/" s) "/"); [congruence|]. reflexivity.
+Qed.
+
+Lemma index_byte_before : forall q n, index_byte q "/" = Some n ->
+  forall t, t < n -> exists x r, skipn t q = x :: r /\ x <> "/".
+Proof.
+  induction q as [|y q IH]; intros n; simpl; [discriminate|].
+  destruct (Ascii.eqb_spec y "/") as [->|Hn].
+  - intros [= <-] t Ht. lia.
+  - destruct (index_byte q "/") as [n'|] eqn:E; simpl; [|discriminate]. intros [= <-] t Ht.
+    destruct t as [|t].
+    + exists y, q. auto.
+    + simpl. apply (IH n' eq_refl). lia.
+Qed.
+
+Lemma index_byte_none_all : forall q, index_byte q "/" = None ->
+  forall t, t < List.length q -> exists x r, skipn t q = x :: r /\ x <> "/".
+Proof.
+  induction q as [|y q IH]; simpl; intros H t Ht; [lia|].
+  destruct (Ascii.eqb_spec y "/") as [->|Hn]; [discriminate|].
+  destruct (index_byte q "/") eqn:E; [discriminate|].
+  destruct t as [|t].
+  - exists y, q. auto.
+  - simpl. apply IH; auto. lia.
+Qed.
+
+Lemma skipn_app_len {A} (v q : list A) t : skipn (List.length v + t) (v ++ q) = skipn t q.
+Proof. induction v; simpl; auto. Qed.
+Lemma firstn_app_len {A} (v q : list A) t : firstn (List.length v + t) (v ++ q) = v ++ firstn t q.
+Proof. induction v; simpl; auto. f_equal; auto. Qed.
+
+Fixpoint noempty (s : bytes) : bool :=
+  match s with
+  | [] => true
+  | c1 :: r => match r with c2 :: _ => negb (Ascii.eqb c1 "/" && Ascii.eqb c2 "/") | [] => true end && noempty r
+  end.
+Definition segstart (q : bytes) : bool := match q with c :: _ => negb (Ascii.eqb c "/") | [] => true end.
+
+Lemma noempty_skipn : forall j s, noempty s = true -> noempty (skipn j s) = true.
+Proof.
+  induction j as [|j IH]; intros s H; [exact H|]. destruct s as [|c s]; [reflexivity|].
+  simpl. apply IH. simpl in H. apply andb_prop in H. tauto.
+Qed.
+
+Lemma noempty_after_slash q r : noempty q = true -> q = "/" :: r -> segstart r = true.
+Proof.
+  intros H ->. simpl in H. destruct r as [|c2 r]; [reflexivity|]. simpl.
+  apply andb_prop in H. destruct H as [H _]. destruct (Ascii.eqb c2 "/"); [discriminate|reflexivity].
+Qed.
+
+Lemma last_app_nonnil {A} (v w : list A) d : w <> [] -> last (v ++ w) d = last w d.
+Proof.
+  intros Hw. induction v as [|x v IH]; auto. simpl. destruct (v ++ w) eqn:E; [|exact IH].
+  apply app_eq_nil in E. tauto.
+Qed.
+
+Lemma last_firstn_S {A} : forall d (q : list A) x r dflt, skipn d q = x :: r -> last (firstn (S d) q) dflt = x.
+Proof.
+  induction d as [|d IH]; intros q x r dflt H.
+  - simpl in H. subst q. reflexivity.
+  - destruct q as [|y q]; [discriminate|]. simpl in H.
+    change (firstn (S (S d)) (y :: q)) with (y :: firstn (S d) q).
+    specialize (IH q x r dflt H). destruct (firstn (S d) q) eqn:E; [|exact IH].
+    destruct q as [|z q]; [rewrite skipn_nil in H; discriminate|simpl in E; discriminate].
+Qed.
+
+Lemma res_of_scan_hit vals nm v (l : node) kvs :
+  res_of (v :: vals) (Some (l, kvs)) = res_of vals (Some (l, (nm, v) :: kvs)).
+Proof. simpl. rewrite <- app_assoc. reflexivity. Qed.
+
+Lemma ts_scan (F : bytes -> bytes -> option (bytes * list bytes)) (sub fin : bytes -> mres) nm vals s :
+  s <> [] -> hd "/" s <> "/" ->
+  (forall j r, skipn j s = "/" :: r -> F (firstn j s) ("/" :: r) = res_of (firstn j s :: vals) (sub ("/" :: r))) ->
+  F s [] = res_of vals (fin s) ->
+  forall sf v q i, s = v ++ q -> i = Nat.max 1 (List.length v) ->
+    segstart q = true -> noempty q = true -> List.length q < sf ->
+    try_splits (List.length s + 1 - i) i s F = res_of vals (scan sf sub fin nm v q).
+Proof.
+  intros Hne Hhd HF Hfin.
+  induction sf as [|sf IH]; intros v q i Hs Hi Hseg Hno Hsf; [lia|].
+  cbn [scan].
+  assert (Hlen : List.length s = List.length v + List.length q) by (rewrite Hs; apply app_length).
+  assert (Hspos : 1 <= List.length s) by (destruct s; [congruence|simpl; lia]).
+  destruct (index_byte q "/") as [[|d]|] eqn:Eidx.
+  - (* q starts with '/': excluded *)
+    destruct q as [|c q']; [discriminate|]. simpl in Eidx, Hseg.
+    destruct (Ascii.eqb c "/"); [discriminate|]. destruct (index_byte q' "/"); discriminate.
+  - pose proof (index_byte_nth q (S d) Eidx) as [Hnth Hdl].
+    remember (List.length v + S d) as j eqn:Hj.
+    assert (Hskj : skipn j s = skipn (S d) q) by (rewrite Hj, Hs; apply skipn_app_len).
+    assert (Hfij : firstn j s = v ++ firstn (S d) q) by (rewrite Hj, Hs; apply firstn_app_len).
+    destruct (skipn (S d) q) as [|x q''] eqn:Eq'; [apply skipn_nil_len in Eq'; lia|].
+    assert (x = "/") as ->.
+    { pose proof (skipn_cons_nth _ _ _ _ Eq') as (H1 & _). congruence. }
+    replace (List.length s + 1 - i) with ((j - i) + S (List.length s - j)) by lia.
+    rewrite ts_skip.
+    2:{ intros t Ht.
+        destruct (index_byte_before q (S d) Eidx (t - List.length v) ltac:(lia)) as (y & r & Hy & Hyn).
+        apply (split_ok_nonslash s t y r); auto.
+        rewrite Hs. replace t with (List.length v + (t - List.length v)) by lia. rewrite skipn_app_len. exact Hy. }
+    replace (i + (j - i)) with j by lia.
+    rewrite try_splits_S.
+    assert (Hok : split_ok s j = true).
+    { apply (split_ok_slash s j q''); auto. rewrite Hfij.
+      destruct (index_byte_before q (S d) Eidx d ltac:(lia)) as (y & r & Hy & Hyn).
+      rewrite last_app_nonnil
+        by (intros Hc; apply (f_equal (@List.length ascii)) in Hc; rewrite firstn_length in Hc; cbn [List.length] in Hc; lia).
+      rewrite (last_firstn_S d q y r "/" Hy). exact Hyn. }
+    rewrite Hok, Hskj. rewrite (HF j q'' Hskj). rewrite Hfij.
+    destruct (sub ("/" :: q'')) as [[l kvs]|].
+    + unfold orelse. rewrite res_of_scan_hit with (nm := nm). reflexivity.
+    + unfold orelse. cbn [res_of].
+      assert (Hq : q = firstn (S d) q ++ "/" :: q'') by (rewrite <- Eq'; symmetry; apply firstn_skipn).
+      specialize (IH (v ++ firstn (S d) q ++ ["/"]) q'' (S j)).
+      assert (Hl2 : List.length (v ++ firstn (S d) q ++ ["/"]) = S j).
+      { rewrite !app_length, firstn_length. cbn [List.length]. lia. }
+      replace (List.length s - j) with (List.length s + 1 - S j) by lia.
+      change (skipn 1 ("/" :: q'')) with q''.
+      apply IH.
+      * rewrite Hs. rewrite Hq at 1. rewrite <- !app_assoc. reflexivity.
+      * rewrite Hl2. lia.
+      * apply (noempty_after_slash ("/" :: q'') q''); auto. rewrite <- Eq'. apply noempty_skipn. exact Hno.
+      * assert (noempty ("/" :: q'') = true) as H by (rewrite <- Eq'; apply noempty_skipn; exact Hno).
+        simpl in H. apply andb_prop in H. tauto.
+      * assert (List.length ("/" :: q'') = List.length q - S d) by (rewrite <- Eq'; apply skipn_length).
+        simpl in H. lia.
+  - (* no further '/' *)
+    replace (List.length s + 1 - i) with ((List.length s - i) + 1) by lia.
+    rewrite ts_skip.
+    2:{ intros t Ht.
+        destruct (index_byte_none_all q Eidx (t - List.length v) ltac:(lia)) as (y & r & Hy & Hyn).
+        apply (split_ok_nonslash s t y r); auto.
+        rewrite Hs. replace t with (List.length v + (t - List.length v)) by lia. rewrite skipn_app_len. exact Hy. }
+    replace (i + (List.length s - i)) with (List.length s) by lia.
+    rewrite try_splits_S. unfold split_ok. rewrite skipn_all, firstn_all. cbn [try_splits orelse].
+    rewrite Hfin, <- Hs. destruct (res_of vals (fin s)); reflexivity.
+Qed.
+
+Lemma ts_slash_start {A} (F : bytes -> bytes -> option A) s : hd "a" s = "/" ->
+  try_splits (List.length s) 1 s F = F s [].
+Proof.
+  intros Hhd. destruct s as [|c s']; [discriminate|]. simpl in Hhd. subst c.
+  replace (List.length ("/" :: s')) with ((List.length ("/" :: s') - 1) + 1) by (simpl; lia).
+  rewrite ts_skip.
+  - replace (1 + (List.length ("/" :: s') - 1)) with (List.length ("/" :: s')) by (simpl; lia).
+    rewrite try_splits_S. unfold split_ok. rewrite skipn_all, firstn_all. cbn [try_splits orelse].
+    destruct (F ("/" :: s') []); reflexivity.
+  - intros j Hj. unfold split_ok. destruct (skipn j ("/" :: s')) as [|x r] eqn:E.
+    + apply skipn_nil_len in E. simpl in *. lia.
+    + destruct x as [b0 b1 b2 b3 b4 b5 b6 b7].
+      destruct b0, b1, b2, b3, b4, b5, b6, b7; try reflexivity.
+      simpl. apply andb_false_r.
 Qed.
 
 Lemma with_vals_app a b r : with_vals (a ++ b) r = with_vals a (with_vals b r).
 Proof. destruct r as [[l v]|]; simpl; auto. rewrite app_assoc. reflexivity. Qed.
-
-Lemma fin_pre n pre kr : fin n (kres_pre pre kr) = with_vals pre (fin n kr).
-Proof.
-  destruct kr as [[|c rest] vals|vals| |]; simpl; auto.
-  - destruct (nroute n); reflexivity.
-  - apply with_vals_app.
-Qed.
-
 Lemma res_of_with_vals vals nm v r : res_of vals (with_vals [(nm, v)] r) = res_of (v :: vals) r.
 Proof. destruct r as [[l kvs]|]; simpl; auto. rewrite <- app_assoc. reflexivity. Qed.
-
-Lemma with_vals_nil r : with_vals [] r = r.
-Proof. destruct r as [[l kvs]|]; reflexivity. Qed.
-
 Lemma res_of_alt vals a b : res_of vals (alt a b) = orelse (res_of vals a) (fun _ => res_of vals b).
 Proof. destruct a as [[l kvs]|]; reflexivity. Qed.
 
-(* side condition of stage 3: the request has no '*' byte, or the tree has no catch-all at all.
-   (With a '*' byte fox looks the catch-all child up as a static edge and tries it BEFORE the
-   parameter child: M1_eq_Spec_catchall_refuted in Props_C01_static.v.) *)
+(* side conditions of stages 3-4: no '*' byte and no empty segment in the request — or no
+   catch-all in the tree at all *)
 Definition nostar (p : bytes) : bool := forallb (fun c => negb (Ascii.eqb c "*")) p.
 Fixpoint plain (n : node) : bool :=
   match n with Node k _ ch => forallb ptok_ok (tokenize k) && forallb plain ch end.
+Definition okpath (p : bytes) : bool := nostar p && noempty p.
 
 Lemma nostar_skipn p : forall j, nostar p = true -> nostar (skipn j p) = true.
 Proof.
   induction p as [|c p IH]; intros j H; destruct j; simpl; auto.
   simpl in H. apply andb_prop in H. destruct H as [_ H]. apply IH; auto.
 Qed.
+Lemma okpath_skipn p j : okpath p = true -> okpath (skipn j p) = true.
+Proof.
+  unfold okpath. intros H. apply andb_prop in H. destruct H as [H1 H2].
+  rewrite nostar_skipn, noempty_skipn; auto.
+Qed.
+Lemma okpath_tl c p : okpath (c :: p) = true -> okpath p = true.
+Proof. apply (okpath_skipn (c :: p) 1). Qed.
 
 Lemma plain_no_star x : plain x = true -> starts_with "*" (nkey x) = false.
 Proof.
@@ -1513,48 +2162,63 @@ Proof.
       rewrite Hs in H. simpl in H. discriminate.
 Qed.
 
-Lemma m2k_select : forall n pre, pwf pre n ->
-  forall kt fuel p vals, kt_ok (lnc (nroute n) (nchildren n)) kt = true -> List.length p + 1 < fuel ->
-  nostar p = true \/ plain n = true ->
-  select fuel (cands kt (nroute n) (nchildren n)) p 0 vals = res_of vals (m2k n kt p).
+Lemma m2_km x p : m2 x p = km x (Kof x) (sub0of (nchildren x)) (tokenize (nkey x)) p.
+Proof. destruct x as [k r ch]. apply m2_eq. Qed.
+
+Definition side (p : bytes) (n : node) (kt : list token) : Prop :=
+  okpath p = true \/ (plain n = true /\ forallb ptok_ok kt = true).
+
+Lemma km_select : forall n pre, pwf pre n ->
+  forall kt fuel p vals, kt_ok (cend (nroute n) (nchildren n)) kt = true -> List.length p + 1 < fuel ->
+  side p n kt ->
+  select fuel (cands kt (nroute n) (nchildren n)) p 0 vals =
+  res_of vals (km n (Kof n) (sub0of (nchildren n)) kt p).
 Proof.
   induction n as [k r ch IH] using node_ind'. intros pre Hwf.
-  apply pwf_inv in Hwf. destruct Hwf as (kt0 & Hne0 & Hk0 & Hok0 & Hr & Hnd & Hch).
+  pose proof (pwf_inv _ _ _ _ Hwf) as (kt0 & Hne0 & Hk0 & Hok0 & Hr & Hnd & Hch).
   rewrite Forall_forall in IH, Hch. cbn [nroute nchildren].
-  assert (Hplain : forall p x, In x ch -> nostar p = true \/ plain (Node k r ch) = true ->
-                   nostar p = true \/ plain x = true).
-  { intros p x Hx [H|H]; [left; exact H|right]. cbn [plain] in H. apply andb_prop in H. destruct H as [_ H].
-    rewrite forallb_forall in H. apply H; exact Hx. }
+  set (n := Node k r ch) in *.
+  assert (Hside_child : forall p x, In x ch -> okpath p = true \/ plain n = true ->
+            forall ktx, tokenize (nkey x) = ktx -> forall kt', (exists t, ktx = t :: kt') -> side p x kt').
+  { intros p x Hx [H|H] ktx Hkx kt' (t & Ht); [left; exact H|right].
+    unfold n in H. cbn [plain] in H. apply andb_prop in H. destruct H as [_ H].
+    rewrite forallb_forall in H. specialize (H x Hx). split; [exact H|].
+    destruct x as [kx rx chx]. cbn [plain nkey] in *. apply andb_prop in H. destruct H as [H _].
+    rewrite Hkx, Ht in H. simpl in H. apply andb_prop in H. tauto. }
+  assert (Hside_weak : forall p kt, side p n kt -> okpath p = true \/ plain n = true).
+  { intros p kt [H|[H _]]; auto. }
   induction kt as [|t kt IHkt]; intros fuel p vals Hok Hf Hs.
-  - rewrite cands_nil. unfold m2k. cbn [kmatch].
+  - (* the key is consumed *)
+    rewrite cands_nil. cbn [km].
     destruct fuel as [|f]; [lia|].
     destruct p as [|c p'].
-    + cbn [select fin nroute]. destruct r as [rt|].
+    + cbn [select Kof nroute]. unfold n at 1. cbn [nroute]. destruct r as [rt|].
       * simpl. rewrite app_nil_r. reflexivity.
       * unfold below. simpl own. simpl app. rewrite leaf_none; [reflexivity|].
         intros k0 Hk0'. apply in_flat_map in Hk0'. destruct Hk0' as (x & Hx & Hk0').
-        eapply cands_of_toks; eauto.
+        apply (cands_of_toks (pre ++ k) x k0 (Hch x Hx) Hk0').
     + rewrite (select_below (pre ++ k)) by auto.
-      cbn [fin nchildren]. rewrite with_vals_nil, !res_of_alt.
+      cbn [Kof]. unfold n at 1 2 3. cbn [nchildren]. rewrite !res_of_alt.
+      pose proof (Hside_weak _ _ Hs) as Hsw.
       assert (Hstat : forall x, first_child c ch = Some x -> sbyte c = true ->
                 select f (tl_cands x) p' 0 vals = res_of vals (m2 x (c :: p'))).
-      { intros x Hx Hc. apply first_child_in in Hx. destruct Hx as [Hinx Hsw].
+      { intros x Hx Hc. apply first_child_in in Hx. destruct Hx as [Hinx Hsw'].
         destruct (pwf_tokens _ _ (Hch x Hinx)) as (t & kt' & Htk & Hkx & Hokx).
-        rewrite m2_m2k, Htk. unfold tl_cands. rewrite Htk. simpl tl.
-        rewrite Hkx in Hsw. destruct (sbyte_split c Hc) as [Hc1 Hc2].
+        rewrite m2_km, Htk. unfold tl_cands. rewrite Htk. simpl tl.
+        rewrite Hkx in Hsw'. destruct (sbyte_split c Hc) as [Hc1 Hc2].
         destruct t as [d|nm|nm].
-        - change (render (TStatic d :: kt')) with (d :: render kt') in Hsw. cbn [starts_with] in Hsw.
-          apply Ascii.eqb_eq in Hsw. subst d.
+        - change (render (TStatic d :: kt')) with (d :: render kt') in Hsw'. cbn [starts_with] in Hsw'.
+          apply Ascii.eqb_eq in Hsw'. subst d.
           destruct (kt_ok_cons _ _ _ Hokx) as [[_ Hokx']|(nm & Hbad & _)]; [|discriminate].
-          assert (Hs' : nostar p' = true \/ plain x = true).
-          { apply (Hplain p' x Hinx). destruct Hs as [Hs|Hs]; [left|right; exact Hs].
-            simpl in Hs. apply andb_prop in Hs. tauto. }
-          rewrite (IH x Hinx (pre ++ k) (Hch x Hinx) kt' f p' vals Hokx') by (auto; simpl in Hf; lia).
-          unfold m2k. cbn [kmatch]. rewrite Ascii.eqb_refl, Hc. reflexivity.
-        - change (render (TParam nm :: kt')) with ("{" :: (nm ++ ["}"]) ++ render kt') in Hsw. cbn [starts_with] in Hsw.
-          apply Ascii.eqb_eq in Hsw. subst c. discriminate.
-        - change (render (TCatch nm :: kt')) with ("*" :: "{" :: (nm ++ ["}"]) ++ render kt') in Hsw. cbn [starts_with] in Hsw.
-          apply Ascii.eqb_eq in Hsw. subst c. discriminate. }
+          rewrite (IH x Hinx (pre ++ k) (Hch x Hinx) kt' f p' vals Hokx').
+          + cbn [km]. rewrite Ascii.eqb_refl, Hc. reflexivity.
+          + simpl in Hf; lia.
+          + apply (Hside_child p' x Hinx) with (ktx := TStatic c :: kt'); eauto.
+            destruct Hsw as [H|H]; [left; eapply okpath_tl; eauto|right; exact H].
+        - change (render (TParam nm :: kt')) with ("{" :: (nm ++ ["}"]) ++ render kt') in Hsw'. cbn [starts_with] in Hsw'.
+          apply Ascii.eqb_eq in Hsw'. subst c. discriminate.
+        - change (render (TCatch nm :: kt')) with ("*" :: "{" :: (nm ++ ["}"]) ++ render kt') in Hsw'. cbn [starts_with] in Hsw'.
+          apply Ascii.eqb_eq in Hsw'. subst c. discriminate. }
       assert (Hpar : match first_child "{" ch with
                      | Some y => match seg is_slash (c :: p') with
                                  | [] => None
@@ -1563,20 +2227,21 @@ Proof.
                      | None => None
                      end = res_of vals (m2_child "{" ch (c :: p'))).
       { unfold m2_child. destruct (first_child "{" ch) as [y|] eqn:Ey; [|reflexivity].
-        apply first_child_in in Ey. destruct Ey as [Hiny Hsw].
+        apply first_child_in in Ey. destruct Ey as [Hiny Hsw'].
         destruct (pwf_tokens _ _ (Hch y Hiny)) as (t & kt' & Htk & Hky & Hoky).
-        rewrite m2_m2k, Htk. unfold tl_cands. rewrite Htk. simpl tl.
-        rewrite Hky in Hsw. destruct t as [d|nm|nm].
-        - change (render (TStatic d :: kt')) with (d :: render kt') in Hsw. cbn [starts_with] in Hsw.
-          apply Ascii.eqb_eq in Hsw. subst d. pose proof (kt_ok_head_static _ _ _ Hoky). discriminate.
+        rewrite m2_km, Htk. unfold tl_cands. rewrite Htk. simpl tl.
+        rewrite Hky in Hsw'. destruct t as [d|nm|nm].
+        - change (render (TStatic d :: kt')) with (d :: render kt') in Hsw'. cbn [starts_with] in Hsw'.
+          apply Ascii.eqb_eq in Hsw'. subst d. pose proof (kt_ok_head_static _ _ _ Hoky). discriminate.
         - destruct (kt_ok_cons _ _ _ Hoky) as [[_ Hoky']|(nm' & Hbad & _)]; [|discriminate].
-          unfold m2k. cbn [kmatch].
+          cbn [km].
           destruct (seg is_slash (c :: p')) as [|v0 vv] eqn:Ev; [reflexivity|].
-          rewrite kmatch_acc, fin_pre. simpl app. rewrite res_of_with_vals.
+          rewrite res_of_with_vals.
           apply (IH y Hiny (pre ++ k) (Hch y Hiny)); auto.
           + rewrite skipn_length. simpl in Hf |- *. lia.
-          + apply (Hplain _ y Hiny). destruct Hs as [Hs|Hs]; [left|right; exact Hs]. apply nostar_skipn; exact Hs.
-        - change (render (TCatch nm :: kt')) with ("*" :: "{" :: (nm ++ ["}"]) ++ render kt') in Hsw. cbn [starts_with] in Hsw.
+          + apply (Hside_child _ y Hiny) with (ktx := TParam nm :: kt'); eauto.
+            destruct Hsw as [H|H]; [left; apply okpath_skipn; exact H|right; exact H].
+        - change (render (TCatch nm :: kt')) with ("*" :: "{" :: (nm ++ ["}"]) ++ render kt') in Hsw'. cbn [starts_with] in Hsw'.
           discriminate. }
       assert (Hcat : match first_child "*" ch with
                      | Some w => try_splits (List.length (c :: p')) 1 (c :: p')
@@ -1584,20 +2249,20 @@ Proof.
                      | None => None
                      end = res_of vals (m2_child "*" ch (c :: p'))).
       { unfold m2_child. destruct (first_child "*" ch) as [w|] eqn:Ew; [|reflexivity].
-        apply first_child_in in Ew. destruct Ew as [Hinw Hsw].
+        apply first_child_in in Ew. destruct Ew as [Hinw Hsw'].
         destruct (pwf_tokens _ _ (Hch w Hinw)) as (t & kt' & Htk & Hkw & Hokw).
-        rewrite m2_m2k, Htk. unfold tl_cands. rewrite Htk. simpl tl.
-        rewrite Hkw in Hsw. destruct t as [d|nm|nm].
-        - change (render (TStatic d :: kt')) with (d :: render kt') in Hsw. cbn [starts_with] in Hsw.
-          apply Ascii.eqb_eq in Hsw. subst d. pose proof (kt_ok_head_static _ _ _ Hokw). discriminate.
-        - change (render (TParam nm :: kt')) with ("{" :: (nm ++ ["}"]) ++ render kt') in Hsw. cbn [starts_with] in Hsw.
+        rewrite m2_km, Htk. unfold tl_cands. rewrite Htk. simpl tl.
+        rewrite Hkw in Hsw'. destruct t as [d|nm|nm].
+        - change (render (TStatic d :: kt')) with (d :: render kt') in Hsw'. cbn [starts_with] in Hsw'.
+          apply Ascii.eqb_eq in Hsw'. subst d. pose proof (kt_ok_head_static _ _ _ Hokw). discriminate.
+        - change (render (TParam nm :: kt')) with ("{" :: (nm ++ ["}"]) ++ render kt') in Hsw'. cbn [starts_with] in Hsw'.
           discriminate.
-        - destruct (kt_ok_cons _ _ _ Hokw) as [[Hbad _]|(nm' & Hnm & -> & Hnok & Hlnc)]; [discriminate|].
-          destruct w as [kw rw chw]. cbn [nroute nchildren] in *.
-          pose proof (lnc_nochild _ _ Hlnc) as ->. destruct rw as [rtw|]; [|discriminate].
-          destruct f as [|f']; [simpl in Hf; lia|].
-          rewrite (select_catch_last f' rtw c p' vals) by reflexivity.
-          unfold m2k. cbn [kmatch fin res_of]. unfold lpat. simpl. reflexivity. }
+        - rewrite <- (select_cands_catch f nm kt' (nroute w) (nchildren w) c p' vals).
+          apply (IH w Hinw (pre ++ k) (Hch w Hinw)); auto.
+          destruct Hsw as [H|H]; [left; exact H|].
+          exfalso. unfold n in H. cbn [plain] in H. apply andb_prop in H. destruct H as [_ H].
+          rewrite forallb_forall in H. specialize (H w Hinw). destruct w as [kw rw chw].
+          cbn [plain nkey] in *. apply andb_prop in H. destruct H as [H _]. rewrite Htk in H. simpl in H. discriminate. }
       rewrite Hpar, Hcat.
       destruct (sbyte c) eqn:Es.
       * assert (Hc1 : m2_child c ch (c :: p') = match first_child c ch with Some x => m2 x (c :: p') | None => None end)
@@ -1608,40 +2273,82 @@ Proof.
       * unfold orelse at 1.
         apply sbyte_false in Es. apply orb_prop in Es. destruct Es as [Es|Es]; apply Ascii.eqb_eq in Es; subst c.
         -- unfold orelse. destruct (res_of vals (m2_child "{" ch ("{" :: p'))); reflexivity.
-        -- destruct Hs as [Hs|Hs]; [simpl in Hs; discriminate|].
+        -- destruct Hsw as [Hsw|Hsw].
+           { unfold okpath in Hsw. simpl in Hsw. discriminate. }
            assert (first_child "*" ch = None) as Hns.
            { destruct (first_child "*" ch) as [x|] eqn:Ex; auto. apply first_child_in in Ex.
-             destruct Ex as [Hinx Hsw]. destruct (Hplain [] x Hinx (or_intror Hs)) as [Hb|Hb].
-             - rewrite (plain_no_star x) in Hsw; [discriminate|].
-               cbn [plain] in Hs. apply andb_prop in Hs. destruct Hs as [_ Hs]. rewrite forallb_forall in Hs. auto.
-             - rewrite (plain_no_star x Hb) in Hsw. discriminate. }
+             destruct Ex as [Hinx Hsw'].
+             unfold n in Hsw. cbn [plain] in Hsw. apply andb_prop in Hsw. destruct Hsw as [_ Hsw].
+             rewrite forallb_forall in Hsw. rewrite (plain_no_star x (Hsw x Hinx)) in Hsw'. discriminate. }
            assert (Hc1 : m2_child "*" ch ("*" :: p') = match first_child "*" ch with Some x => m2 x ("*" :: p') | None => None end)
              by reflexivity.
            rewrite Hc1, Hns. reflexivity.
   - destruct fuel as [|f]; [lia|].
     destruct p as [|c p'].
     + rewrite select_cands_short. reflexivity.
-    + destruct (kt_ok_cons _ _ _ Hok) as [[Hokt Hok']|(nm' & -> & -> & Hnok & Hlnc)].
-      * destruct t as [d|nm|nm]; simpl in Hokt; [| |discriminate].
-        -- rewrite select_cands_static. unfold m2k. cbn [kmatch].
+    + destruct (kt_ok_cons _ _ _ Hok) as [[Hokt Hok']|(nm' & -> & Hnok & Hok' & Hend)].
+      * assert (Hs' : forall q, (okpath (c :: p') = true -> okpath q = true) -> side q n kt).
+        { intros q Hq. destruct Hs as [H|[H1 H2]]; [left; auto|right]. split; auto.
+          simpl in H2. apply andb_prop in H2. tauto. }
+        destruct t as [d|nm|nm]; simpl in Hokt; [| |discriminate].
+        -- rewrite select_cands_static. cbn [km].
            destruct (Ascii.eqb d c && sbyte c); [|reflexivity].
-           apply IHkt; auto; [simpl in Hf; lia|].
-           destruct Hs as [Hs|Hs]; [left|right; exact Hs]. simpl in Hs. apply andb_prop in Hs. tauto.
-        -- rewrite select_cands_param. unfold m2k. cbn [kmatch].
+           apply IHkt; auto; [simpl in Hf; lia|]. apply Hs'. apply okpath_tl.
+        -- rewrite select_cands_param. cbn [km].
            destruct (seg is_slash (c :: p')) as [|v0 vv] eqn:Ev; [reflexivity|].
-           rewrite kmatch_acc, fin_pre. simpl app. rewrite res_of_with_vals.
-           apply IHkt; auto; [rewrite skipn_length; simpl in Hf |- *; lia|].
-           destruct Hs as [Hs|Hs]; [left|right; exact Hs]. apply nostar_skipn; exact Hs.
-      * (* suffix catch-all ends the key: r is a leaf without children *)
-        pose proof (lnc_nochild _ _ Hlnc) as ->. destruct r as [rt|]; [|discriminate].
-        cbn [select]. rewrite adv_param_cands_catch, adv_catch_cands_catch, adv_static_cands_catch.
-        cbn [Nat.eqb negb]. unfold orelse at 1 2.
-        assert ((if Ascii.eqb c "{" || Ascii.eqb c "*" then None else @None (bytes * list bytes)) = None) as ->
-          by (destruct (Ascii.eqb c "{" || Ascii.eqb c "*"); reflexivity).
-        rewrite cands_nil. unfold below. simpl own. simpl app.
-        destruct f as [|f']; [simpl in Hf; lia|].
-        rewrite (select_catch_last f' rt c p' vals) by reflexivity.
-        unfold m2k. cbn [kmatch fin res_of]. unfold lpat. simpl. reflexivity.
+           rewrite res_of_with_vals.
+           apply IHkt; auto; [rewrite skipn_length; simpl in Hf |- *; lia|]. apply Hs'. intros H. apply okpath_skipn; exact H.
+      * (* catch-all *)
+        destruct Hs as [Hs|[_ Hbad]]; [|simpl in Hbad; discriminate].
+        rewrite select_cands_catch.
+        set (s := c :: p') in *.
+        assert (Hf2 : 2 <= f) by (unfold s in Hf; simpl in Hf; lia).
+        assert (IHF : forall v rest, List.length rest < List.length s -> okpath rest = true ->
+                  select f (cands kt r ch) rest 0 (v :: vals) = res_of (v :: vals) (km n (Kof n) (sub0of ch) kt rest)).
+        { intros v rest Hl Ho. apply IHkt; auto; [lia|]. left; exact Ho. }
+        assert (Hsuf : forall j r0, skipn j s = "/" :: r0 -> c <> "/" ->
+                  List.length ("/" :: r0) < List.length s /\ okpath ("/" :: r0) = true).
+        { intros j r0 Hj Hc. split.
+          - destruct j as [|j]; [unfold s in Hj; simpl in Hj; congruence|].
+            rewrite <- Hj, skipn_length. unfold s. simpl. lia.
+          - rewrite <- Hj. apply okpath_skipn. exact Hs. }
+        assert (Hno : noempty s = true) by (unfold okpath in Hs; apply andb_prop in Hs; tauto).
+        cbn [km]. destruct kt as [|t' kt''].
+        -- (* the catch-all ends the key *)
+           specialize (Hend eq_refl). destruct (cend_children _ _ Hend) as [Hnil|(c0 & Hc0e & Hc0s)].
+           ++ subst ch. cbn [sub0of]. destruct r as [rt|]; [|discriminate].
+              destruct f as [|f']; [lia|].
+              rewrite cands_nil. unfold below. simpl own. simpl app.
+              rewrite (select_catch_last f' rt c p' vals) by reflexivity.
+              cbn [res_of]. unfold lpat, n. simpl. reflexivity.
+           ++ subst ch. cbn [sub0of]. destruct r as [rt|]; [|discriminate].
+              assert (Hfin : select f (cands [] (Some rt) [c0]) [] 0 (s :: vals) =
+                             res_of vals (Some (n, [(nm', s)]))).
+              { transitivity (res_of (s :: vals) (km n (Kof n) (sub0of [c0]) [] []));
+                  [apply IHF; [unfold s; simpl; lia|reflexivity]|]. cbn [km Kof]. unfold n at 1. cbn [nroute res_of].
+                cbn [map snd rev]. rewrite app_nil_r. reflexivity. }
+              destruct (Ascii.eqb_spec c "/") as [->|Hcs].
+              ** rewrite ts_slash_start by reflexivity. cbv beta. etransitivity; [exact Hfin|reflexivity].
+              ** replace (List.length s) with (List.length s + 1 - 1) by lia.
+                 apply (ts_scan _ (m2 c0) (fun v => Some (n, [(nm', v)])) nm' vals s);
+                   [discriminate | unfold s; simpl; exact Hcs | | exact Hfin | reflexivity | reflexivity
+                    | unfold s; simpl; destruct (Ascii.eqb_spec c "/"); [congruence|reflexivity] | exact Hno | lia].
+                 intros j r0 Hj. destruct (Hsuf j r0 Hj Hcs) as [Hl Ho].
+                 cbv beta. etransitivity; [apply (IHF _ _ Hl Ho)|].
+                 cbn [km Kof]. unfold m2_child, n. cbn [nchildren first_child]. rewrite Hc0s.
+                 assert (starts_with "{" (nkey c0) = false /\ starts_with "*" (nkey c0) = false) as [-> ->].
+                 { destruct (nkey c0) as [|x kk]; [discriminate|]. simpl in *. apply Ascii.eqb_eq in Hc0s. subst x. auto. }
+                 destruct (m2 c0 ("/" :: r0)); reflexivity.
+        -- (* infix catch-all *)
+           assert (Hfin : select f (cands (t' :: kt'') r ch) [] 0 (s :: vals) = None).
+           { destruct f as [|f']; [lia|]. apply select_cands_short. }
+           destruct (Ascii.eqb_spec c "/") as [->|Hcs].
+           ++ rewrite ts_slash_start by reflexivity. cbv beta. etransitivity; [exact Hfin|reflexivity].
+           ++ replace (List.length s) with (List.length s + 1 - 1) by lia.
+              apply (ts_scan _ (fun q => km n (Kof n) (sub0of ch) (t' :: kt'') q) (fun _ => None) nm' vals s);
+                [discriminate | unfold s; simpl; exact Hcs | | exact Hfin | reflexivity | reflexivity
+                 | unfold s; simpl; destruct (Ascii.eqb_spec c "/"); [congruence|reflexivity] | exact Hno | lia].
+              intros j r0 Hj. destruct (Hsuf j r0 Hj Hcs) as [Hl Ho]. cbv beta. apply IHF; auto.
 Qed.
 
 Lemma prep_prep a b c : prep a (prep b c) = prep (a ++ b) c.
@@ -1673,25 +2380,6 @@ Proof.
     + rewrite forallb_app, Hpt, Hok'. reflexivity.
 Qed.
 
-Lemma kmatch_names b : forall kt p, kt_ok b kt = true ->
-  match kmatch kt p [] with
-  | KDone _ vals | KCatch vals => map fst vals = wildcard_names kt
-  | _ => True
-  end.
-Proof.
-  induction kt as [|t kt IH]; intros p Hok.
-  - reflexivity.
-  - destruct p as [|c p']; [exact I|].
-    destruct (kt_ok_cons _ _ _ Hok) as [[Ht Hok']|(nm' & -> & -> & _ & _)].
-    + destruct t as [d|nm|nm]; simpl in Ht; try discriminate; cbn [kmatch].
-      * destruct (Ascii.eqb d c && sbyte c); [|exact I]. apply IH; auto.
-      * destruct (seg is_slash (c :: p')) as [|v0 vv]; [exact I|].
-        rewrite kmatch_acc. specialize (IH (skipn (List.length (v0 :: vv)) (c :: p')) Hok').
-        destruct (kmatch kt (skipn (List.length (v0 :: vv)) (c :: p')) []) as [rest' vals'|vals'| |]; simpl; auto;
-          f_equal; exact IH.
-    + reflexivity.
-Qed.
-
 Lemma m2_child_some cc ch q l v2 : m2_child cc ch q = Some (l, v2) -> exists x, In x ch /\ m2 x q = Some (l, v2).
 Proof.
   unfold m2_child. destruct (first_child cc ch) as [x|] eqn:E; [|discriminate].
@@ -1701,49 +2389,100 @@ Qed.
 Lemma wildcard_names_app a b : wildcard_names (a ++ b) = wildcard_names a ++ wildcard_names b.
 Proof. unfold wildcard_names. apply flat_map_app. Qed.
 
-Lemma m2_sound : forall n pre p l kvs, pwf pre n -> m2 n p = Some (l, kvs) ->
+Lemma scan_some sub fin nm : forall sf v q l kvs, scan sf sub fin nm v q = Some (l, kvs) ->
+  (exists q' kvs' v', sub q' = Some (l, kvs') /\ kvs = (nm, v') :: kvs') \/ (exists v', fin v' = Some (l, kvs)).
+Proof.
+  induction sf as [|sf IH]; intros v q l kvs H; [discriminate|]. cbn [scan] in H.
+  destruct (index_byte q "/") as [[|d]|].
+  - right. eexists; exact H.
+  - destruct (sub (skipn (S d) q)) as [[l' kvs']|] eqn:E.
+    + inversion H; subst. left. do 3 eexists. split; [exact E|reflexivity].
+    + eapply IH; eauto.
+  - right. eexists; exact H.
+Qed.
+
+(* what a match reports: a registered route whose pattern is the branch, with the branch's names *)
+Definition sound_res (n : node) (pre : bytes) (l : node) (kvs : list kv) : Prop :=
   exists rt bt, nroute l = Some rt /\ In rt (routes_s n) /\ rpat rt = pre ++ render bt /\
                 forallb tok_ok bt = true /\ map fst kvs = wildcard_names bt.
+
+Lemma m2_sound : forall n pre p l kvs, pwf pre n -> m2 n p = Some (l, kvs) -> sound_res n pre l kvs.
 Proof.
   induction n as [k r ch IH] using node_ind'. intros pre p l kvs Hwf.
-  apply pwf_inv in Hwf. destruct Hwf as (kt & Hne & Hk & Hok & Hr & Hnd & Hch).
-  pose proof (kt_ok_tok _ _ Hok) as Hok'.
-  subst k. rewrite m2_eq, tokenize_render by exact Hok'.
-  pose proof (kmatch_names _ kt p Hok) as Hnames.
-  destruct (kmatch kt p []) as [[|c rest] vals|vals| |] eqn:Ek; try discriminate.
-  - destruct r as [rt|]; [|discriminate]. intros [= <- <-].
-    exists rt, kt. simpl. repeat split; auto.
-  - intros H.
-    destruct (alt (m2_child c ch (c :: rest)) (alt (m2_child "{" ch (c :: rest)) (m2_child "*" ch (c :: rest))))
-      as [[l' v2]|] eqn:Ea; [|discriminate].
-    simpl in H. inversion H; subst l' kvs. clear H.
-    assert (exists x, In x ch /\ m2 x (c :: rest) = Some (l, v2)) as (x & Hx & Hm).
-    { unfold alt in Ea. destruct (m2_child c ch (c :: rest)) as [[l1 v1]|] eqn:E1.
-      - inversion Ea; subst. eapply m2_child_some; eauto.
-      - destruct (m2_child "{" ch (c :: rest)) as [[l1 v1]|] eqn:E2.
-        + inversion Ea; subst. eapply m2_child_some; eauto.
-        + eapply m2_child_some; eauto. }
-    rewrite Forall_forall in IH, Hch.
-    destruct (IH x Hx (pre ++ render kt) _ _ _ (Hch x Hx) Hm) as (rt & bt & H1 & H2 & H3 & H4 & H5).
-    exists rt, (kt ++ bt). repeat split; auto.
-    + cbn [routes_s]. apply in_or_app. right. apply in_flat_map. exists x; auto.
-    + rewrite H3, render_app, app_assoc. reflexivity.
-    + rewrite forallb_app, Hok', H4. reflexivity.
-    + rewrite map_app, wildcard_names_app. f_equal; [exact Hnames|exact H5].
-  - (* suffix catch-all: the node is a leaf *)
-    intros [= <- <-].
-    assert (lnc r ch = true) as Hl.
-    { clear -Hok Ek. revert p vals Ek Hok. induction kt as [|t kt IHk]; intros p vals Ek Hok; [discriminate|].
-      destruct p as [|c p']; [discriminate|].
-      destruct (kt_ok_cons _ _ _ Hok) as [[Ht Hok']|(nm' & -> & -> & _ & Hb)]; [|exact Hb].
-      destruct t as [d|nm|nm]; simpl in Ht; try discriminate; cbn [kmatch] in Ek.
-      - destruct (Ascii.eqb d c && sbyte c); [|discriminate]. eapply IHk; eauto.
-      - destruct (seg is_slash (c :: p')) as [|v0 vv]; [discriminate|].
-        rewrite kmatch_acc in Ek.
-        destruct (kmatch kt (skipn (List.length (v0 :: vv)) (c :: p')) []) eqn:E; try discriminate.
-        eapply IHk; eauto. }
-    destruct r as [rt|]; [|destruct ch; discriminate].
-    exists rt, kt. simpl. repeat split; auto.
+  pose proof (pwf_inv _ _ _ _ Hwf) as (kt0 & Hne & Hk & Hok & Hr & Hnd & Hch).
+  rewrite Forall_forall in IH, Hch.
+  set (n := Node k r ch) in *.
+  assert (Hchild : forall x q l kvs, In x ch -> m2 x q = Some (l, kvs) ->
+            exists rt bt, nroute l = Some rt /\ In rt (routes_s n) /\ rpat rt = (pre ++ k) ++ render bt /\
+                          forallb tok_ok bt = true /\ map fst kvs = wildcard_names bt).
+  { intros x q l0 kvs0 Hx Hm. destruct (IH x Hx (pre ++ k) q l0 kvs0 (Hch x Hx) Hm) as (rt & bt & H1 & H2 & H3 & H4 & H5).
+    exists rt, bt. repeat split; auto. unfold n. cbn [routes_s]. apply in_or_app. right. apply in_flat_map. exists x; auto. }
+  assert (Hgen : forall kt done p l kvs, k = render (done ++ kt) -> forallb tok_ok done = true ->
+            kt_ok (cend r ch) kt = true ->
+            km n (Kof n) (sub0of ch) kt p = Some (l, kvs) ->
+            exists rt bt, nroute l = Some rt /\ In rt (routes_s n) /\ rpat rt = pre ++ render (done ++ kt ++ bt) /\
+                          forallb tok_ok bt = true /\ map fst kvs = wildcard_names (kt ++ bt)).
+  { induction kt as [|t kt IHkt]; intros done p0 l0 kvs0 Hkd Hdone Hokt Hm.
+    - cbn [km] in Hm. rewrite app_nil_r in Hkd. destruct p0 as [|c p'].
+      + cbn [Kof] in Hm. unfold n in Hm at 1. cbn [nroute] in Hm. destruct r as [rt|]; [|discriminate].
+        inversion Hm; subst l0 kvs0. exists rt, []. simpl. rewrite app_nil_r. repeat split; auto;
+          try (unfold n; simpl; auto; fail).
+        rewrite (Hr rt eq_refl), Hkd. reflexivity.
+      + cbn [Kof] in Hm. unfold n in Hm at 1 2 3. cbn [nchildren] in Hm.
+        assert (exists x, In x ch /\ m2 x (c :: p') = Some (l0, kvs0)) as (x & Hx & Hmx).
+        { unfold alt in Hm. destruct (m2_child c ch (c :: p')) as [[l1 v1]|] eqn:E1.
+          - inversion Hm; subst. eapply m2_child_some; eauto.
+          - destruct (m2_child "{" ch (c :: p')) as [[l1 v1]|] eqn:E2.
+            + inversion Hm; subst. eapply m2_child_some; eauto.
+            + eapply m2_child_some; eauto. }
+        destruct (Hchild x _ _ _ Hx Hmx) as (rt & bt & H1 & H2 & H3 & H4 & H5).
+        exists rt, bt. simpl. repeat split; auto. rewrite H3, Hkd, render_app, app_assoc. reflexivity.
+    - destruct p0 as [|c p']; [discriminate|].
+      assert (Hstep : forall kvs1, km n (Kof n) (sub0of ch) kt (match t with TStatic _ => p' | _ => c :: p' end) = Some (l0, kvs1) -> True) by auto.
+      destruct (kt_ok_cons _ _ _ Hokt) as [[Hokt1 Hokt2]|(nm & -> & Hnm & Hokt2 & Hend)].
+      + assert (Hd1 : forallb tok_ok (done ++ [t]) = true)
+          by (rewrite forallb_app, Hdone; simpl; rewrite (ptok_tok _ Hokt1); reflexivity).
+        assert (Hk1 : k = render ((done ++ [t]) ++ kt)) by (rewrite <- app_assoc; exact Hkd).
+        destruct t as [d|nm|nm]; simpl in Hokt1; try discriminate; cbn [km] in Hm.
+        * destruct (Ascii.eqb d c && sbyte c); [|discriminate].
+          destruct (IHkt (done ++ [TStatic d]) _ _ _ Hk1 Hd1 Hokt2 Hm) as (rt & bt & H1 & H2 & H3 & H4 & H5).
+          exists rt, bt. repeat split; auto. rewrite H3, <- app_assoc. reflexivity.
+        * destruct (seg is_slash (c :: p')) as [|v0 vv]; [discriminate|].
+          destruct (km n (Kof n) (sub0of ch) kt (skipn (List.length (v0 :: vv)) (c :: p'))) as [[l1 kvs1]|] eqn:E; [|discriminate].
+          simpl in Hm. inversion Hm; subst l0 kvs0.
+          destruct (IHkt (done ++ [TParam nm]) _ _ _ Hk1 Hd1 Hokt2 E) as (rt & bt & H1 & H2 & H3 & H4 & H5).
+          exists rt, bt. repeat split; auto.
+          -- rewrite H3, <- app_assoc. reflexivity.
+          -- simpl. f_equal. exact H5.
+      + assert (Hd1 : forallb tok_ok (done ++ [TCatch nm]) = true)
+          by (rewrite forallb_app, Hdone; simpl; rewrite Hnm; reflexivity).
+        assert (Hk1 : k = render ((done ++ [TCatch nm]) ++ kt)) by (rewrite <- app_assoc; exact Hkd).
+        cbn [km] in Hm. destruct kt as [|t' kt'].
+        * specialize (Hend eq_refl). pose proof (cend_leaf _ _ Hend) as Hleaf.
+          destruct r as [rt|]; [|congruence].
+          assert (Hown : exists rt0 bt, nroute n = Some rt0 /\ In rt0 (routes_s n) /\
+                         rpat rt0 = pre ++ render (done ++ [TCatch nm] ++ bt) /\ forallb tok_ok bt = true /\ bt = []).
+          { exists rt, []. unfold n. simpl. repeat split; auto. rewrite (Hr rt eq_refl), Hkd. reflexivity. }
+          destruct (sub0of ch) as [sb|] eqn:Esb.
+          -- apply scan_some in Hm. destruct Hm as [(q' & kvs' & v' & Hsb & ->)|(v' & Hfin)].
+             ++ destruct ch as [|c0 ch']; [discriminate|]. cbn [sub0of] in Esb. inversion Esb; subst sb.
+                destruct (Hchild c0 _ _ _ (or_introl eq_refl) Hsb) as (rt1 & bt & H1 & H2 & H3 & H4 & H5).
+                exists rt1, bt. repeat split; auto.
+                ** rewrite H3, Hkd. rewrite !render_app. rewrite <- !app_assoc. reflexivity.
+                ** simpl. f_equal. exact H5.
+             ++ inversion Hfin; subst l0 kvs0. destruct Hown as (rt0 & bt & H1 & H2 & H3 & H4 & ->).
+                exists rt0, []. repeat split; auto.
+          -- inversion Hm; subst l0 kvs0. destruct Hown as (rt0 & bt & H1 & H2 & H3 & H4 & ->).
+             exists rt0, []. repeat split; auto.
+        * apply scan_some in Hm. destruct Hm as [(q' & kvs' & v' & Hsb & ->)|(v' & Hfin)]; [|discriminate].
+          destruct (IHkt (done ++ [TCatch nm]) _ _ _ Hk1 Hd1 Hokt2 Hsb) as (rt & bt & H1 & H2 & H3 & H4 & H5).
+          exists rt, bt. repeat split; auto.
+          -- rewrite H3, <- app_assoc. reflexivity.
+          -- simpl. f_equal. exact H5. }
+  intros Hm. unfold n in Hm. rewrite m2_eq in Hm. fold n in Hm.
+  rewrite Hk, tokenize_render in Hm by (eapply kt_ok_tok; eauto).
+  destruct (Hgen kt0 [] p l kvs Hk eq_refl Hok Hm) as (rt & bt & H1 & H2 & H3 & H4 & H5).
+  exists rt, (kt0 ++ bt). repeat split; auto. rewrite forallb_app, (kt_ok_tok _ _ Hok), H4. reflexivity.
 Qed.
 
 Lemma combine_fst_snd {A B} (l : list (A * B)) : combine (map fst l) (map snd l) = l.
@@ -1772,7 +2511,7 @@ Qed.
 
 (* S on the routes of the tree = M2 *)
 Theorem spec_eq_m2 t host path : pwf [] t -> starts_with "/" (nkey t) = true ->
-  nostar path = true \/ plain t = true ->
+  okpath path = true \/ plain t = true ->
   select_in (map rpat (routes_of_node t)) host path false = res_of [] (m2 t path).
 Proof.
   intros Hwf Hsl Hs. unfold select_in.
@@ -1780,23 +2519,28 @@ Proof.
   { pose proof (pwf_routes_path t Hwf Hsl) as H. induction H as [|p l Hp _ IH]; simpl; auto. rewrite Hp, IH. reflexivity. }
   rewrite routes_of_node_s, (cands_of_routes t [] [] Hwf eq_refl eq_refl).
   rewrite (map_ext _ (fun c => c)) by apply prep_nil. rewrite map_id.
-  rewrite cands_of_tokens, m2_m2k.
+  rewrite cands_of_tokens, m2_km.
   destruct t as [k r ch]. pose proof (pwf_inv _ _ _ _ Hwf) as (kt & _ & Hk & Hok & _).
-  cbn [nkey nroute nchildren]. rewrite Hk, tokenize_render by (eapply kt_ok_tok; exact Hok). rewrite <- Hk.
-  apply (m2k_select (Node k r ch) [] Hwf kt); auto. unfold spec_fuel. lia.
+  cbn [nkey nroute nchildren].
+  assert (Htk : tokenize k = kt) by (rewrite Hk; apply tokenize_render; eapply kt_ok_tok; eauto).
+  rewrite Htk.
+  apply (km_select (Node k r ch) [] Hwf kt); auto.
+  - unfold spec_fuel. lia.
+  - destruct Hs as [Hs|Hs]; [left; exact Hs|right]. split; auto.
+    cbn [plain] in Hs. apply andb_prop in Hs. rewrite <- Htk. tauto.
 Qed.
 
 (* M1 = S, direct matches, with parameter values *)
 Theorem lbp_param_eq_spec t host path fuel :
-  pwf [] t -> starts_with "/" (nkey t) = true -> m2_fuel t <= fuel ->
-  nostar path = true \/ plain t = true ->
+  pwf [] t -> starts_with "/" (nkey t) = true -> m2_fuel path t <= fuel ->
+  okpath path = true \/ plain t = true ->
   direct_obs (lookup_by_path fuel t path false [] []) = spec_direct (map rpat (routes_of_node t)) host path.
 Proof.
   intros Hwf Hsl Hf Hs. unfold spec_direct. rewrite (spec_eq_m2 t host path Hwf Hsl Hs).
   pose proof (lbp_eq_m2 t path false fuel Hwf Hf) as H.
   destruct (m2 t path) as [[l kvs]|] eqn:Em.
-  - destruct H as [tps' ->]. destruct (m2_sound _ _ _ _ _ Hwf Em) as (rt & bt & H1 & H2 & H3 & H4 & H5).
-    simpl. unfold lpat. rewrite H1. f_equal. f_equal.
+  - destruct H as (l' & tps' & -> & Hrt). destruct (m2_sound _ _ _ _ _ Hwf Em) as (rt & bt & H1 & H2 & H3 & H4 & H5).
+    simpl. unfold lpat. rewrite Hrt, H1. f_equal. f_equal.
     unfold name_values. simpl in H3. rewrite H3, tokenize_render by exact H4. rewrite <- H5. symmetry. apply combine_fst_snd.
   - destruct H as (a & b & c & d & -> & Hi). simpl.
     destruct a as [n|]; auto. destruct b; auto. specialize (Hi eq_refl). discriminate.
@@ -1804,34 +2548,34 @@ Qed.
 
 (* with lazy parameter capture (Reverse / Iter.Reverse) the same route is selected *)
 Theorem lbp_param_eq_spec_lazy t host path fuel lazy :
-  pwf [] t -> starts_with "/" (nkey t) = true -> m2_fuel t <= fuel ->
-  nostar path = true \/ plain t = true ->
+  pwf [] t -> starts_with "/" (nkey t) = true -> m2_fuel path t <= fuel ->
+  okpath path = true \/ plain t = true ->
   option_map fst (direct_obs (lookup_by_path fuel t path lazy [] [])) =
   option_map fst (spec_direct (map rpat (routes_of_node t)) host path).
 Proof.
   intros Hwf Hsl Hf Hs. unfold spec_direct. rewrite (spec_eq_m2 t host path Hwf Hsl Hs).
   pose proof (lbp_eq_m2 t path lazy fuel Hwf Hf) as H.
   destruct (m2 t path) as [[l kvs]|] eqn:Em.
-  - destruct H as [tps' ->]. destruct (m2_sound _ _ _ _ _ Hwf Em) as (rt & bt & H1 & _).
-    simpl. unfold lpat. rewrite H1. reflexivity.
+  - destruct H as (l' & tps' & -> & Hrt). destruct (m2_sound _ _ _ _ _ Hwf Em) as (rt & bt & H1 & _).
+    simpl. unfold lpat. rewrite Hrt, H1. reflexivity.
   - destruct H as (a & b & c & d & -> & Hi). simpl.
     destruct a as [n|]; auto. destruct b; auto. specialize (Hi eq_refl). discriminate.
 Qed.
 
 (* never Panic / OutOfFuel under the bound *)
 Theorem lbp_param_total t path lazy fuel :
-  pwf [] t -> m2_fuel t <= fuel ->
+  pwf [] t -> m2_fuel path t <= fuel ->
   exists n tp pss tpss, lookup_by_path fuel t path lazy [] [] = Found n tp pss tpss.
 Proof.
   intros Hwf Hf. pose proof (lbp_eq_m2 t path lazy fuel Hwf Hf) as H.
   destruct (m2 t path) as [[l kvs]|].
-  - destruct H as [tps' ->]. do 4 eexists; reflexivity.
+  - destruct H as (l' & tps' & -> & _). do 4 eexists; reflexivity.
   - destruct H as (a & b & c & d & -> & _). do 4 eexists; reflexivity.
 Qed.
 
 Theorem roots_lookup_param_eq_spec r m t host path fuel :
-  path_only_root r m t -> pwf [] t -> m2_fuel t <= fuel ->
-  nostar path = true \/ plain t = true ->
+  path_only_root r m t -> pwf [] t -> m2_fuel path t <= fuel ->
+  okpath path = true \/ plain t = true ->
   direct_obs (roots_lookup fuel r m host path false [] []) =
   sres_direct (spec_lookup (method_patterns r m) host path).
 Proof.
@@ -1845,7 +2589,7 @@ Qed.
 Fixpoint pwfb (pre : bytes) (n : node) : bool :=
   match n with
   | Node k r ch =>
-      negb (Spec.is_nil (tokenize k)) && bytes_eqb (render (tokenize k)) k && kt_ok (lnc r ch) (tokenize k)
+      negb (Spec.is_nil (tokenize k)) && bytes_eqb (render (tokenize k)) k && kt_ok (cend r ch) (tokenize k)
       && match r with Some rt => bytes_eqb (rpat rt) (pre ++ k) | None => true end
       && nodupb (heads ch)
       && forallb (pwfb (pre ++ k)) ch
